@@ -22,13 +22,26 @@ Definition xpeek (h : state) (a : Z) : option xval :=
   end.
 
 Definition entry_vals (e : ventry) : list val :=
-  match e with VCreate _ => [] | VUpdate _ nw old => [nw; old] | VDelete _ old => [old] end.
+  match e with
+  | VCreate _ (Some p) _ => [p]
+  | VCreate _ None _ => []
+  | VUpdate _ nw old => [nw; old]
+  | VDelete _ old => [old]
+  end.
 Definition abs_entry (h : state) (e : ventry) : xentry :=
   match e with
-  | VCreate a => XCreate a
+  | VCreate a _ _ => XCreate a
   | VUpdate a nw old => XUpdate a (absv h nw) (absv h old)
-  | VDelete a _ => XCreate a
+  | VDelete a old => XDelete a (absv h old)
   end.
+
+(* the newest journal entry of an address *)
+Fixpoint jfirst (j : list ventry) (a : Z) : option ventry :=
+  match j with
+  | [] => None
+  | e :: r => if Z.eqb (ventry_addr e) a then Some e else jfirst r a
+  end.
+Definition is_del (e : ventry) : bool := match e with VDelete _ _ => true | _ => false end.
 
 (* the newest entries of the validator journal that no in-place slice mutation
    has touched (constrained) / the older, tainted ones *)
@@ -42,17 +55,33 @@ Definition val_wf (h : state) (a : Z) (v : val) : Prop :=
 Definition coherent (h : state) (a : Z) (v : val) : Prop :=
   exists p, aget (t_vals h) a = Some p /\ norm (p_v p) = norm v /\ p_dl p = view h v.
 
-Definition entry_ok (h : state) (e : ventry) (older : list Z) : Prop :=
+(* a removed validator still in the cache: its slice is intact *)
+Definition tomb_wf (h : state) (a : Z) (v : val) : Prop := val_wf h a (set_deleted v false).
+
+Definition not_del_first (older : list ventry) (a : Z) : Prop :=
+  match jfirst older a with Some e => is_del e = false | None => True end.
+
+Definition entry_ok (h : state) (e : ventry) (older : list ventry) : Prop :=
   match e with
-  | VCreate a => ~ In a older /\ ~ In a (vdirty h) /\ aget (t_vals h) a = None
+  | VCreate a prev indexed =>
+    indexed = false /\
+    match prev with
+    | None => jfirst older a = None /\ ~ In a (vdirty h) /\ aget (t_vals h) a = None
+    | Some p => v_deleted p = true /\ tomb_wf h a p /\
+                match jfirst older a with Some e' => is_del e' = true | None => True end /\
+                (~ In a (vdirty h) -> ~ In a (map ventry_addr older) -> aget (t_vals h) a = None)
+    end
   | VUpdate a nw old =>
-    val_wf h a nw /\ val_wf h a old /\ (~ In a older -> ~ In a (vdirty h) -> coherent h a old)
-  | VDelete _ _ => False
+    val_wf h a nw /\ val_wf h a old /\ not_del_first older a /\
+    (~ In a (map ventry_addr older) -> ~ In a (vdirty h) -> coherent h a old)
+  | VDelete a old =>
+    val_wf h a old /\ not_del_first older a /\
+    (~ In a (map ventry_addr older) -> ~ In a (vdirty h) -> coherent h a old)
   end.
-Fixpoint jwf (h : state) (j : list ventry) (older : list Z) : Prop :=
+Fixpoint jwf (h : state) (j : list ventry) (older : list ventry) : Prop :=
   match j with
   | [] => True
-  | e :: r => entry_ok h e (map ventry_addr r ++ older) /\ jwf h r older
+  | e :: r => entry_ok h e (r ++ older) /\ jwf h r older
   end.
 
 Definition reachable (h : state) (t : nat) (v : val) : Prop :=
@@ -60,16 +89,18 @@ Definition reachable (h : state) (t : nat) (v : val) : Prop :=
 
 Record wfv (h : state) (t : nat) : Prop := {
   w_t : (t <= length (vjournal h))%nat;
-  w_vmap : forall a v, aget (vmap h) a = Some v -> v_addr v = a /\ (v_deleted v = false -> val_wf h a v);
+  w_vmap : forall a v, aget (vmap h) a = Some v ->
+             v_addr v = a /\ (v_deleted v = false -> val_wf h a v) /\ (v_deleted v = true -> tomb_wf h a v);
   w_range : forall v, reachable h t v -> (v_aid v < length (arrs h))%nat;
   w_sep : forall v w, reachable h t v -> reachable h t w -> v_addr v <> v_addr w -> v_aid v <> v_aid w;
   w_tvals : forall a p, aget (t_vals h) a = Some p -> v_addr (p_v p) = a /\ has_nil (p_dl p) = false;
-  w_tomb : forall a v, aget (vmap h) a = Some v -> v_deleted v = true -> aget (t_vals h) a = None;
+  w_tomb : forall a v, aget (vmap h) a = Some v -> v_deleted v = true ->
+             ~ In a (vdirty h) -> ~ In a (map ventry_addr (vjournal h)) -> aget (t_vals h) a = None;
   w_coh : forall a v, aget (vmap h) a = Some v -> v_deleted v = false ->
             ~ In a (vdirty h) -> ~ In a (map ventry_addr (vjournal h)) -> coherent h a v;
-  w_jlive : forall e, In e (vjournal h) -> exists v, aget (vmap h) (ventry_addr e) = Some v /\ v_deleted v = false;
-  w_jwf : jwf h (cj h t) (map ventry_addr (tj h t));
-  w_dirty : forall a, In a (vdirty h) -> exists v, aget (vmap h) a = Some v /\ v_deleted v = false;
+  w_jlive : forall a e, jfirst (vjournal h) a = Some e -> exists v, aget (vmap h) a = Some v /\ v_deleted v = is_del e;
+  w_jwf : jwf h (cj h t) (tj h t);
+  w_dirty : forall a, In a (vdirty h) -> aget (vmap h) a <> None;
   w_nodup : NoDup (map fst (vmap h));
   w_dsorted : zsorted (vdirty h);
   w_tnodup : NoDup (map fst (t_vals h)) }.
@@ -136,7 +167,12 @@ Definition hpre (h : state) (t : nat) (o : op) : bool :=
   | OCreate a role status token stake =>
     role_ok role && Z.leb 0 token && Z.eqb stake (token / stake_unit)
   | OUpdate a u => match xpeek h a with None => true | Some (old, _) => upd_ok old u end
-  | ORemove a => match aget (vmap h) a with None => true | Some _ => false end
+  | ORemove a =>
+    (* caller discipline: a removed validator holds no delegations (only a cached, not yet removed one is touched) *)
+    match aget (vmap h) a with
+    | Some v => v_deleted v || Nat.eqb (v_len v) 0
+    | None => true
+    end
   | ODelegate d a amt =>
     match xpeek h a with
     | None => true
@@ -146,13 +182,16 @@ Definition hpre (h : state) (t : nat) (o : op) : bool :=
        && Z.leb 0 (tokl l d + amt))
     end
   | ORevert id => match aget (revs h) id with Some (_, vj) => Nat.leb t vj | None => false end
-  | ORoot | OCommitReload =>
-    forallb (fun a => match xpeek h a with Some (v, _) => negb (truncated_invalid v) | None => true end) (universe h)
-  | OList => match vindex h, t_index h with
-             | [], _ => true
-             | _, None => true
-             | i, Some l => list_eqb Z.eqb i l
-             end
+  | OCopy =>
+    (* finding copy-reindexes-removed-validator: a removed validator that is finalised but not yet rooted *)
+    forallb (fun a => mem a (vj_dirties h)
+                      || match aget (vmap h) a with Some v => negb (v_deleted v) | None => true end) (vdirty h)
+  | OList =>
+    (* finding stale-index-reload: empty in-memory index, non-empty persisted index *)
+    match vindex h, t_index h with
+    | [], Some (_ :: _) => false
+    | _, _ => true
+    end
   | _ => true
   end.
 
@@ -233,9 +272,15 @@ Qed.
 Lemma entry_ok_le h h' e older : heap_le h h' -> t_vals h' = t_vals h -> vdirty h' = vdirty h ->
   entry_ok h e older -> entry_ok h' e older.
 Proof.
-  intros Hle Ht Hd. destruct e as [a|a nw old|a old]; cbn; [rewrite Ht, Hd; tauto| |tauto].
-  intros (H1 & H2 & H3). repeat split; try (eapply val_wf_le; eassumption).
-  rewrite Hd. intros N1 N2. eapply coherent_le; eauto. apply H2.
+  intros Hle Ht Hd. destruct e as [a prev idx|a nw old|a old]; cbn.
+  - intros [H0 H]. split; [exact H0|]. destruct prev as [p|].
+    + destruct H as (H1 & H2 & H3 & H4). split; [exact H1|]. split; [eapply val_wf_le; eauto|]. split; [exact H3|].
+      rewrite Hd, Ht. exact H4.
+    + rewrite Ht, Hd. exact H.
+  - intros (H1 & H2 & H3 & H4). split; [eapply val_wf_le; eassumption|]. split; [eapply val_wf_le; eassumption|].
+    split; [exact H3|]. rewrite Hd. intros N1 N2. eapply coherent_le; eauto. apply H2.
+  - intros (H2 & H3 & H4). split; [eapply val_wf_le; eassumption|].
+    split; [exact H3|]. rewrite Hd. intros N1 N2. eapply coherent_le; eauto. apply H2.
 Qed.
 
 Lemma jwf_le h h' j older : heap_le h h' -> t_vals h' = t_vals h -> vdirty h' = vdirty h ->
@@ -248,8 +293,9 @@ Qed.
 Lemma abs_entry_le h h' e : heap_le h h' -> (forall v, In v (entry_vals e) -> (v_aid v < length (arrs h))%nat) ->
   abs_entry h' e = abs_entry h e.
 Proof.
-  intros Hle H. destruct e as [a|a nw old|a old]; cbn in *; try reflexivity.
-  rewrite !(absv_le h h') by auto. reflexivity.
+  intros Hle H. destruct e as [a prev idx|a nw old|a old]; cbn in *; try reflexivity.
+  - rewrite !(absv_le h h') by auto. reflexivity.
+  - rewrite !(absv_le h h') by auto. reflexivity.
 Qed.
 
 Lemma map_abs_entry_le h h' j : heap_le h h' ->
@@ -274,15 +320,16 @@ Proof.
   eapply ajbase_frame; eauto.
 Qed.
 
-(* allocation alone *)
-Lemma wf_alloc h t ext : wf h t -> wf (w_arrs h (arrs h ++ ext)) t.
+(* growing the heap (allocations, or mutation of arrays nothing reachable points to) *)
+Lemma wf_grow h t A : heap_le h (w_arrs h A) -> wf h t -> wf (w_arrs h A) t.
 Proof.
-  intros [W WA]. pose proof (heap_le_alloc h ext) as Hle. set (h' := w_arrs h (arrs h ++ ext)).
+  intros Hle [W WA]. set (h' := w_arrs h A).
   split; [|apply (wfa_frame h); auto]. constructor.
   - apply W.
-  - intros a v Hv. destruct (w_vmap _ _ W a v Hv) as [H1 H2]. split; [exact H1|].
-    intros Hd. eapply val_wf_le; eauto.
-  - intros v Hr. pose proof (w_range _ _ W v Hr). cbn. rewrite app_length. lia.
+  - intros a v Hv. destruct (w_vmap _ _ W a v Hv) as (H1 & H2 & H3). split; [exact H1|]. split.
+    + intros Hd. eapply val_wf_le; eauto.
+    + intros Hd. unfold tomb_wf. eapply val_wf_le; eauto. apply (H3 Hd).
+  - intros v Hr. pose proof (w_range _ _ W v Hr). destruct Hle as [L _]. cbn in *. lia.
   - apply (w_sep _ _ W).
   - apply (w_tvals _ _ W).
   - apply (w_tomb _ _ W).
@@ -305,13 +352,13 @@ Proof.
   destruct (v_deleted v); [reflexivity|]. now rewrite (absv_le h h') by auto.
 Qed.
 
-Lemma R_alloc h t x ext : wf h t -> R h t x -> R (w_arrs h (arrs h ++ ext)) t x.
+Lemma R_grow h t x A : heap_le h (w_arrs h A) -> wf h t -> R h t x -> R (w_arrs h A) t x.
 Proof.
-  intros [W WA] Rx. pose proof (heap_le_alloc h ext) as Hle. constructor; try apply Rx.
+  intros Hle [W WA] Rx. constructor; try apply Rx.
   - intros a. rewrite (r_xs _ _ _ Rx). symmetry. apply xpeek_le; auto.
     intros v Hv. apply (w_range _ _ W). left; eauto.
   - cbn [vjournal w_arrs]. rewrite (r_vj _ _ _ Rx). symmetry.
-    change (cj (w_arrs h (arrs h ++ ext)) t) with (cj h t).
+    change (cj (w_arrs h A) t) with (cj h t).
     apply map_abs_entry_le; [assumption|]. intros v Hv. apply (w_range _ _ W). right. exact Hv.
 Qed.
 
@@ -452,9 +499,11 @@ Proof.
       split; [|apply (wfa_frame h); auto]. constructor.
       * apply W.
       * intros b w. rewrite Hvm. destruct (Z.eq_dec b a) as [->|Hne].
-        -- rewrite aget_aset_same. intros E; inversion E; subst w. split; [exact Hva|intros _; exact Hwfv].
-        -- rewrite aget_aset_other by assumption. intros Hw. destruct (w_vmap _ _ W _ _ Hw) as [H1 H2].
-           split; [exact H1|]. intros Hd. eapply val_wf_le; eauto.
+        -- rewrite aget_aset_same. intros E; inversion E; subst w.
+           split; [exact Hva|split; [intros _; exact Hwfv|intros Hd; congruence]].
+        -- rewrite aget_aset_other by assumption. intros Hw. destruct (w_vmap _ _ W _ _ Hw) as (H1 & H2 & H3).
+           split; [exact H1|]. split; [intros Hd; eapply val_wf_le; eauto|].
+           intros Hd. unfold tomb_wf. eapply val_wf_le; eauto. apply (H3 Hd).
       * intros w Hr. rewrite Harrs, app_length. cbn.
         destruct (reachable_vmap_ext h h1 t w eq_refl Hr) as [[b Hb]|Hr0].
         -- rewrite Hvm in Hb. destruct (Z.eq_dec b a) as [->|Hne].
@@ -482,12 +531,12 @@ Proof.
         -- rewrite aget_aset_other by assumption. intros Hw Hd N1 N2.
            eapply coherent_le; eauto. apply (w_range _ _ W). left; eauto.
            apply (w_coh _ _ W b w Hw Hd N1 N2).
-      * intros e He. rewrite Hvm. destruct (Z.eq_dec (ventry_addr e) a) as [->|Hne].
-        -- rewrite aget_aset_same. eauto.
-        -- rewrite aget_aset_other by assumption. apply (w_jlive _ _ W e He).
+      * intros b e He. rewrite Hvm. destruct (Z.eq_dec b a) as [->|Hne].
+        -- exfalso. destruct (w_jlive _ _ W a e He) as (w & Hw & _). congruence.
+        -- rewrite aget_aset_other by assumption. apply (w_jlive _ _ W b e He).
       * eapply jwf_le; eauto. apply (w_jwf _ _ W).
       * intros b Hb. rewrite Hvm. destruct (Z.eq_dec b a) as [->|Hne].
-        -- rewrite aget_aset_same. eauto.
+        -- rewrite aget_aset_same. discriminate.
         -- rewrite aget_aset_other by assumption. apply (w_dirty _ _ W b Hb).
       * rewrite Hvm. apply NoDup_aset, (w_nodup _ _ W).
       * apply (w_dsorted _ _ W).
@@ -520,6 +569,8 @@ Proof. destruct v; reflexivity. Qed.
 Lemma norm_apply_upd v u : norm (apply_upd v u) = apply_upd (norm v) u.
 Proof. destruct v; reflexivity. Qed.
 Lemma norm_set_total v a b : norm (set_total v a b) = set_total (norm v) a b.
+Proof. destruct v; reflexivity. Qed.
+Lemma decr_stat_set_deleted_any st v b : decr_stat st (set_deleted v b) = decr_stat st v.
 Proof. destruct v; reflexivity. Qed.
 Lemma is_invalid_norm v : is_invalid (norm v) = is_invalid v.
 Proof. destruct v; reflexivity. Qed.
@@ -554,6 +605,9 @@ Proof.
   intros E Ht. unfold cj, tj. rewrite E. cbn [length].
   replace (S (length (vjournal h)) - t)%nat with (S (length (vjournal h) - t)) by lia. cbn. auto.
 Qed.
+
+Lemma cj_tj h t : cj h t ++ tj h t = vjournal h.
+Proof. unfold cj, tj. apply firstn_skipn. Qed.
 
 Lemma addrs_cj_tj h t : map ventry_addr (cj h t) ++ map ventry_addr (tj h t) = map ventry_addr (vjournal h).
 Proof. unfold cj, tj. now rewrite <- map_app, firstn_skipn. Qed.
@@ -594,7 +648,7 @@ Proof.
     (Earr & Evm & Eidx & Evj & Est & Edirty & Eacc & Eaj & Erev & Enext & Etv & Eti & Ets & Ebl & Ead).
   assert (Hna : v_addr nw = a) by apply Hnwf0. assert (Hnd : v_deleted nw = false) by apply Hnwf0.
   rewrite Hna in *.
-  destruct (w_vmap _ _ W _ _ Hold) as [Hoa Howf]. specialize (Howf Hod).
+  destruct (w_vmap _ _ W _ _ Hold) as (Hoa & Howf & _). specialize (Howf Hod).
   assert (Hle : heap_le h h') by (apply heap_le_eq, Earr).
   assert (Hnwf : val_wf h' a nw) by (eapply val_wf_eq; eauto).
   assert (Howf' : val_wf h' a old) by (eapply val_wf_eq; eauto).
@@ -613,9 +667,10 @@ Proof.
   - split; [|apply (wfa_frame h); auto]. constructor.
     + rewrite Evj. cbn. pose proof (w_t _ _ W). lia.
     + intros b w. rewrite Evm. destruct (Z.eq_dec b a) as [->|Hne].
-      * rewrite aget_aset_same. intros E; inversion E; subst w. split; [exact Hna|intros _; exact Hnwf].
-      * rewrite aget_aset_other by assumption. intros Hw. destruct (w_vmap _ _ W _ _ Hw) as [H1 H2].
-        split; [exact H1|]. intros Hd. eapply val_wf_eq; eauto.
+      * rewrite aget_aset_same. intros E; inversion E; subst w.
+        split; [exact Hna|split; [intros _; exact Hnwf|intros Hd; congruence]].
+      * rewrite aget_aset_other by assumption. intros Hw. destruct (w_vmap _ _ W _ _ Hw) as (H1 & H2 & H3).
+        split; [exact H1|]. split; [intros Hd; eapply val_wf_eq; eauto|intros Hd; unfold tomb_wf; eapply val_wf_eq; [eauto|exact (H3 Hd)]].
     + intros w Hr. rewrite Earr. destruct (Hreach _ Hr) as [->|Hr0].
       * apply Hnwf0.
       * apply (w_range _ _ W _ Hr0).
@@ -628,24 +683,26 @@ Proof.
     + rewrite Etv. apply (w_tvals _ _ W).
     + intros b w. rewrite Evm, Etv. destruct (Z.eq_dec b a) as [->|Hne].
       * rewrite aget_aset_same. intros E; inversion E; subst w. congruence.
-      * rewrite aget_aset_other by assumption. apply (w_tomb _ _ W).
+      * rewrite aget_aset_other by assumption. intros Hw Hd N1 N2. apply (w_tomb _ _ W b w Hw Hd).
+        -- now rewrite <- Edirty.
+        -- intros Hin. apply N2. rewrite Evj. cbn. auto.
     + intros b w. rewrite Evm, Edirty, Evj. destruct (Z.eq_dec b a) as [->|Hne].
       * intros _ _ _ N. exfalso. apply N. cbn. auto.
       * rewrite aget_aset_other by assumption. intros Hw Hd N1 N2.
         eapply coherent_le; eauto. apply (w_range _ _ W). left; eauto.
         apply (w_coh _ _ W b w Hw Hd N1). intros Hin. apply N2. cbn. auto.
-    + intros e. rewrite Evj, Evm. intros [<-|He]; cbn.
-      * rewrite aget_aset_same. eauto.
-      * destruct (Z.eq_dec (ventry_addr e) a) as [->|Hne].
-        -- rewrite aget_aset_same. eauto.
-        -- rewrite aget_aset_other by assumption. apply (w_jlive _ _ W e He).
+    + intros b e. rewrite Evj, Evm. cbn [jfirst ventry_addr]. destruct (Z.eqb_spec a b) as [<-|Hne].
+      * intros E; inversion E; subst e. rewrite aget_aset_same. exists nw. split; [reflexivity|exact Hnd].
+      * rewrite aget_aset_other by congruence. apply (w_jlive _ _ W b e).
     + rewrite Ecj, Etj. cbn [jwf]. split.
-      * cbn [entry_ok]. split; [exact Hnwf|]. split; [exact Howf'|].
-        rewrite addrs_cj_tj, Edirty. intros N1 N2. eapply coherent_le; eauto.
-        apply (w_range _ _ W _ Holdr). apply (w_coh _ _ W a old Hold Hod N2 N1).
+      * cbn [entry_ok]. split; [exact Hnwf|]. split; [exact Howf'|]. rewrite cj_tj. split.
+        -- unfold not_del_first. destruct (jfirst (vjournal h) a) as [e'|] eqn:Ef; [|exact I].
+           destruct (w_jlive _ _ W a e' Ef) as (w & Hw & Hwd). congruence.
+        -- rewrite Edirty. intros N1 N2. eapply coherent_le; eauto.
+           apply (w_range _ _ W _ Holdr). apply (w_coh _ _ W a old Hold Hod N2 N1).
       * eapply jwf_le; eauto. apply (w_jwf _ _ W).
     + intros b. rewrite Edirty, Evm. intros Hb. destruct (Z.eq_dec b a) as [->|Hne].
-      * rewrite aget_aset_same. eauto.
+      * rewrite aget_aset_same. discriminate.
       * rewrite aget_aset_other by assumption. apply (w_dirty _ _ W b Hb).
     + rewrite Evm. apply NoDup_aset, (w_nodup _ _ W).
     + rewrite Edirty. apply (w_dsorted _ _ W).
@@ -689,7 +746,7 @@ Proof.
   destruct r as [old|].
   - destruct Hr as (Hv & Hd & Hx). rewrite Hx. intros Hu.
     unfold absv at 1. rewrite <- norm_apply_upd.
-    destruct (w_vmap _ _ (proj1 W1) _ _ Hv) as [Hoa Howf]. specialize (Howf Hd).
+    destruct (w_vmap _ _ (proj1 W1) _ _ Hv) as (Hoa & Howf & _). specialize (Howf Hd).
     assert (Hsame : v_aid (apply_upd old u) = v_aid old /\ v_len (apply_upd old u) = v_len old) by (destruct old; auto).
     destruct Hsame as [Hsa Hsl].
     eapply (update_validator_spec h1 t x a old (apply_upd old u) _ _ h' W1 R1 HJ Hv Hd eq_refl); try exact Hu.
@@ -702,12 +759,11 @@ Qed.
 
 (* ---- CreateValidator ---------------------------------------------------------- *)
 
-Lemma xpeek_none_tvals h t a : wfv h t -> xpeek h a = None -> aget (t_vals h) a = None.
+Lemma xpeek_none_tvals h t a : wfv h t -> aget (vmap h) a = None -> xpeek h a = None -> aget (t_vals h) a = None.
 Proof.
-  intros W. unfold xpeek. destruct (aget (vmap h) a) as [w|] eqn:Ew.
-  - destruct (v_deleted w) eqn:Ed; [|discriminate]. intros _. apply (w_tomb _ _ W _ _ Ew Ed).
-  - destruct (aget (t_vals h) a) as [p|] eqn:Ep; [|reflexivity].
-    destruct (w_tvals _ _ W _ _ Ep) as [_ Hn]. rewrite Hn. discriminate.
+  intros W Ew. unfold xpeek. rewrite Ew.
+  destruct (aget (t_vals h) a) as [p|] eqn:Ep; [|reflexivity].
+  destruct (w_tvals _ _ W _ _ Ep) as [_ Hn]. rewrite Hn. discriminate.
 Qed.
 
 Lemma xpeek_live h a w : aget (vmap h) a = Some w -> v_deleted w = false -> xpeek h a = Some (absv h w).
@@ -727,7 +783,13 @@ Proof.
     unfold alloc. set (aid := length (arrs h)).
     remember (new_validator a role status token stake aid) as v eqn:Hvdef.
     set (h0 := w_arrs h (arrs h ++ [[]])).
-    set (h3 := set_validator (vj_push h0 (VCreate a)) v).
+    set (prev := aget (vmap h) a).
+    assert (Hnidx : mem a (vindex h) = false).
+    { destruct (mem a (vindex h)) eqn:Em; [|reflexivity]. apply mem_In in Em.
+      destruct HJ as (([_ _ _ Hix] & _) & _). rewrite <- (r_index _ _ _ Rx), Hix in Em.
+      apply aget_keys in Em. rewrite (r_xs _ _ _ Rx), Hx in Em. congruence. }
+    change (aget (vmap h0) a) with prev. change (vindex h0) with (vindex h). rewrite Hnidx.
+    set (h3 := set_validator (vj_push h0 (VCreate a prev false)) v).
     unfold with_stat. destruct (incr_stat (stat_ h3) v) as [st|] eqn:Est; [|discriminate].
     intros H; inversion H; subst h'; clear H.
     assert (Hva : v_addr v = a) by (rewrite Hvdef; reflexivity).
@@ -739,31 +801,37 @@ Proof.
     assert (Earr : arrs h' = arrs h ++ [[]]) by reflexivity.
     assert (Evm : vmap h' = aset (vmap h) a v) by (unfold h', h3, set_validator, index_add; cbn; now rewrite Hva).
     assert (Eidx : vindex h' = sins a (vindex h)) by (unfold h', h3, set_validator, index_add; cbn; now rewrite Hva).
-    assert (Evj : vjournal h' = VCreate a :: vjournal h) by reflexivity.
+    assert (Evj : vjournal h' = VCreate a prev false :: vjournal h) by reflexivity.
     assert (Hle : heap_le h h') by (split; [rewrite Earr, app_length; lia | intros; unfold arr_of; rewrite Earr; now rewrite app_nth1]).
     assert (Hview : view h' v = []) by (unfold view; now rewrite Hvlen).
     assert (Hwfv : val_wf h' a v).
     { unfold val_wf. rewrite Hview, Hvaid, Hvlen, Earr, app_length. cbn. unfold aid. repeat split; auto; lia. }
     destruct (cj_push h h' _ t Evj (w_t _ _ W)) as [Ecj Etj].
+    (* what the new validator replaces: nothing or a removed validator *)
+    assert (Hprev : match prev with
+                    | Some p => v_deleted p = true /\ v_addr p = a /\ tomb_wf h a p
+                    | None => True end).
+    { unfold prev. destruct (aget (vmap h) a) as [p|] eqn:Ep; [|exact I].
+      destruct (w_vmap _ _ W _ _ Ep) as (P1 & P2 & P3).
+      destruct (v_deleted p) eqn:Ed; [auto|]. rewrite (xpeek_live _ _ _ Ep Ed) in Hx. discriminate. }
     assert (Hreach : forall w, reachable h' t w -> w = v \/ reachable h t w).
     { intros w [[b Hb]|Hin].
       - rewrite Evm in Hb. destruct (Z.eq_dec b a) as [->|Hne].
         + rewrite aget_aset_same in Hb. inversion Hb; auto.
         + rewrite aget_aset_other in Hb by assumption. right; left; eauto.
-      - rewrite Ecj in Hin. cbn in Hin. right; right; exact Hin. }
-    assert (Hnotj : ~ In a (map ventry_addr (vjournal h))).
-    { intros Hin. apply in_map_iff in Hin as (e & Ea & He). destruct (w_jlive _ _ W e He) as (w & Hw & Hwd).
-      rewrite Ea in Hw. rewrite (xpeek_live _ _ _ Hw Hwd) in Hx. discriminate. }
-    assert (Hnotd : ~ In a (vdirty h)).
-    { intros Hin. destruct (w_dirty _ _ W a Hin) as (w & Hw & Hwd).
-      rewrite (xpeek_live _ _ _ Hw Hwd) in Hx. discriminate. }
+      - rewrite Ecj in Hin. cbn [flat_map entry_vals] in Hin. apply in_app_or in Hin as [Hin|Hin].
+        + right. left. exists a. unfold prev in Hin. destruct (aget (vmap h) a) as [p|]; [|destruct Hin].
+          destruct Hin as [<-|[]]. reflexivity.
+        + right; right; exact Hin. }
     split.
     + split; [|apply (wfa_frame h); auto]. constructor.
       * rewrite Evj. cbn. pose proof (w_t _ _ W). lia.
       * intros b w. rewrite Evm. destruct (Z.eq_dec b a) as [->|Hne].
-        -- rewrite aget_aset_same. intros E; inversion E; subst w. split; [exact Hva|intros _; exact Hwfv].
-        -- rewrite aget_aset_other by assumption. intros Hw. destruct (w_vmap _ _ W _ _ Hw) as [H1 H2].
-           split; [exact H1|]. intros Hd. eapply val_wf_le; eauto.
+        -- rewrite aget_aset_same. intros E; inversion E; subst w.
+           split; [exact Hva|split; [intros _; exact Hwfv|intros Hd; congruence]].
+        -- rewrite aget_aset_other by assumption. intros Hw. destruct (w_vmap _ _ W _ _ Hw) as (H1 & H2 & H3).
+           split; [exact H1|]. split; [intros Hd; eapply val_wf_le; eauto|].
+           intros Hd. unfold tomb_wf. eapply val_wf_le; [eauto|exact (H3 Hd)].
       * intros w Hr. rewrite Earr, app_length. cbn. destruct (Hreach _ Hr) as [->|Hr0].
         -- rewrite Hvaid. unfold aid. lia.
         -- pose proof (w_range _ _ W _ Hr0). lia.
@@ -773,25 +841,34 @@ Proof.
         -- rewrite Hvaid. pose proof (w_range _ _ W _ R1). unfold aid. lia.
         -- apply (w_sep _ _ W); assumption.
       * apply (w_tvals _ _ W).
-      * intros b w. rewrite Evm. destruct (Z.eq_dec b a) as [->|Hne].
+      * intros b w. rewrite Evm, Evj. destruct (Z.eq_dec b a) as [->|Hne].
         -- rewrite aget_aset_same. intros E; inversion E; subst w. congruence.
-        -- rewrite aget_aset_other by assumption. apply (w_tomb _ _ W).
+        -- rewrite aget_aset_other by assumption. intros Hw Hd N1 N2. apply (w_tomb _ _ W b w Hw Hd N1).
+           intros Hin. apply N2. cbn. auto.
       * intros b w. rewrite Evm, Evj. destruct (Z.eq_dec b a) as [->|Hne].
         -- intros _ _ _ N. exfalso. apply N. cbn. auto.
         -- rewrite aget_aset_other by assumption. intros Hw Hd N1 N2.
            eapply coherent_le; eauto. apply (w_range _ _ W). left; eauto.
            apply (w_coh _ _ W b w Hw Hd N1). intros Hin. apply N2. cbn. auto.
-      * intros e. rewrite Evj, Evm. intros [<-|He]; cbn.
-        -- rewrite aget_aset_same. eauto.
-        -- destruct (Z.eq_dec (ventry_addr e) a) as [->|Hne].
-           ++ rewrite aget_aset_same. eauto.
-           ++ rewrite aget_aset_other by assumption. apply (w_jlive _ _ W e He).
+      * intros b e. rewrite Evj, Evm. cbn [jfirst ventry_addr]. destruct (Z.eqb_spec a b) as [<-|Hne].
+        -- intros E; inversion E; subst e. rewrite aget_aset_same. exists v. split; [reflexivity|exact Hvd].
+        -- rewrite aget_aset_other by congruence. apply (w_jlive _ _ W b e).
       * rewrite Ecj, Etj. cbn [jwf]. split.
-        -- cbn [entry_ok]. rewrite addrs_cj_tj. split; [exact Hnotj|]. split; [exact Hnotd|].
-           apply (xpeek_none_tvals h t a W Hx).
+        -- cbn [entry_ok]. rewrite cj_tj. split; [reflexivity|].
+           unfold prev in *. destruct (aget (vmap h) a) as [p|] eqn:Ep.
+           ++ destruct Hprev as (P1 & P2 & P3). split; [exact P1|]. split; [eapply val_wf_le; [exact Hle|exact P3]|].
+              split.
+              ** destruct (jfirst (vjournal h) a) as [e'|] eqn:Ef; [|exact I].
+                 destruct (w_jlive _ _ W a e' Ef) as (w & Hw & Hwd). congruence.
+              ** intros N1 N2. apply (w_tomb _ _ W a p Ep P1 N1 N2).
+           ++ split; [|split].
+              ** destruct (jfirst (vjournal h) a) as [e'|] eqn:Ef; [|reflexivity].
+                 destruct (w_jlive _ _ W a e' Ef) as (w & Hw & _). congruence.
+              ** intros Hin. apply (w_dirty _ _ W a Hin). exact Ep.
+              ** apply (xpeek_none_tvals h t a W Ep Hx).
         -- eapply jwf_le; eauto. apply (w_jwf _ _ W).
       * intros b Hb. rewrite Evm. destruct (Z.eq_dec b a) as [->|Hne].
-        -- rewrite aget_aset_same. eauto.
+        -- rewrite aget_aset_same. discriminate.
         -- rewrite aget_aset_other by assumption. apply (w_dirty _ _ W b Hb).
       * rewrite Evm. apply NoDup_aset, (w_nodup _ _ W).
       * apply (w_dsorted _ _ W).
@@ -832,12 +909,11 @@ Proof.
   assert (Hr : forall v, reachable h' t v <-> reachable h t v) by (intros v; unfold reachable; now rewrite Em, Hcj).
   constructor.
   - rewrite Ej. apply W.
-  - intros a v. rewrite Em. intros Hv. destruct (w_vmap _ _ W _ _ Hv) as [H1 H2]. split; [exact H1|].
-    intros Hd. eapply val_wf_eq; eauto.
+  - intros a v. rewrite Em. intros Hv. destruct (w_vmap _ _ W _ _ Hv) as (H1 & H2 & H3). split; [exact H1|]. split; [intros Hd; eapply val_wf_eq; eauto|intros Hd; unfold tomb_wf; eapply val_wf_eq; [eauto|exact (H3 Hd)]].
   - intros v Hv. rewrite Ea. apply (w_range _ _ W), Hr, Hv.
   - intros v w Hv Hw. apply (w_sep _ _ W); now apply Hr.
   - rewrite Et. apply W.
-  - rewrite Em, Et. apply W.
+  - rewrite Em, Et, Ed, Ej. apply W.
   - intros a v. rewrite Em, Ed, Ej. intros Hv Hd N1 N2. eapply coherent_le; eauto.
     apply (w_range _ _ W). left; eauto. apply (w_coh _ _ W a v Hv Hd N1 N2).
   - rewrite Ej, Em. apply W.
@@ -926,12 +1002,115 @@ Proof.
     + now rewrite (r_next _ _ _ Rx).
 Qed.
 
+(* RemoveValidator acts on cached, not yet removed validators only: otherwise nothing happens *)
+Definition a_step_h (h : state) (x : astate) (o : op) : astate :=
+  match o with
+  | ORemove a => match aget (vmap h) a with
+                 | Some v => if v_deleted v then x else a_step x o
+                 | None => x
+                 end
+  | _ => a_step x o
+  end.
+
+Lemma set_deleted_back v : v_deleted v = false -> set_deleted (set_deleted v true) false = v.
+Proof. destruct v; cbn. intros ->. reflexivity. Qed.
+
+Lemma J_sorted x : J x -> ssorted (xs (core x)).
+Proof. intros (([Hs _ _ _] & _) & _). exact Hs. Qed.
+
 Lemma sim_remove h t x a h' :
-  wf h t -> R h t x -> hpre h t (ORemove a) = true -> step h (ORemove a) = Some h' ->
-  wf h' t /\ R h' t (a_step x (ORemove a)).
+  wf h t -> R h t x -> J x -> hpre h t (ORemove a) = true -> step h (ORemove a) = Some h' ->
+  wf h' t /\ R h' t (a_step_h h x (ORemove a)).
 Proof.
-  intros W Rx. cbn [hpre step a_step]. unfold remove_validator.
-  destruct (aget (vmap h) a); [discriminate|]. intros _ H; inversion H; subst. auto.
+  intros [W WA] Rx HJ. cbn [hpre step a_step_h a_step]. unfold remove_validator.
+  destruct (aget (vmap h) a) as [v|] eqn:Hv; [|intros _ H; inversion H; subst; split; [split|]; assumption].
+  destruct (v_deleted v) eqn:Hvd; [intros _ H; inversion H; subst; split; [split|]; assumption|].
+  cbn [orb]. intros Hlen. apply Nat.eqb_eq in Hlen.
+  destruct (w_vmap _ _ W _ _ Hv) as (Hva & Hvwf & _). specialize (Hvwf Hvd).
+  set (v' := set_deleted v true).
+  unfold with_stat. cbn [stat_ w_vindex Model.w_vmap vj_push w_vjournal].
+  unfold v' at 1. rewrite decr_stat_set_deleted_any.
+  destruct (decr_stat (stat_ h) v) as [st|] eqn:Est; [|discriminate].
+  intros H; inversion H; subst h'; clear H.
+  cbn [vmap vindex vj_push w_vjournal].
+  set (h' := w_stat (w_vindex (Model.w_vmap (vj_push h (VDelete a v)) (aset (vmap h) a v')) (srem a (vindex h))) st).
+  assert (Earr : arrs h' = arrs h) by reflexivity.
+  assert (Evm : vmap h' = aset (vmap h) a v') by reflexivity.
+  assert (Evj : vjournal h' = VDelete a v :: vjournal h) by reflexivity.
+  assert (Hle : heap_le h h') by (apply heap_le_eq, Earr).
+  destruct (cj_push h h' _ t Evj (w_t _ _ W)) as [Ecj Etj].
+  assert (Hv'a : v_addr v' = a) by (destruct v; exact Hva).
+  assert (Hv'aid : v_aid v' = v_aid v) by (destruct v; reflexivity).
+  assert (Hv'd : v_deleted v' = true) by (destruct v; reflexivity).
+  assert (Hvr : reachable h t v) by (left; eauto).
+  assert (Hview : view h v = []) by (unfold view; now rewrite Hlen).
+  assert (Hxa : aget (xs (core x)) a = Some (norm v, [])).
+  { rewrite (r_xs _ _ _ Rx), (xpeek_live _ _ _ Hv Hvd). unfold absv. now rewrite Hview. }
+  assert (Hreach : forall u, reachable h' t u ->
+            exists u0, reachable h t u0 /\ v_addr u0 = v_addr u /\ v_aid u0 = v_aid u).
+  { intros u [[b Hb]|Hin].
+    - rewrite Evm in Hb. destruct (Z.eq_dec b a) as [->|Hne].
+      + rewrite aget_aset_same in Hb. inversion Hb; subst u. exists v. split; [exact Hvr|]. split; congruence.
+      + rewrite aget_aset_other in Hb by assumption. exists u. split; [left; eauto|auto].
+    - rewrite Ecj in Hin. cbn in Hin. destruct Hin as [<-|Hin]; [exists v; auto|]. exists u. split; [right; exact Hin|auto]. }
+  split; [split|].
+  - constructor.
+    + rewrite Evj. cbn. pose proof (w_t _ _ W). lia.
+    + intros b w. rewrite Evm. destruct (Z.eq_dec b a) as [->|Hne].
+      * rewrite aget_aset_same. intros E; inversion E; subst w. split; [exact Hv'a|].
+        split; [intros Hd; congruence|]. intros _. unfold tomb_wf, v'. rewrite set_deleted_back by assumption.
+        eapply val_wf_eq; eauto.
+      * rewrite aget_aset_other by assumption. intros Hw. destruct (w_vmap _ _ W _ _ Hw) as (H1 & H2 & H3).
+        split; [exact H1|]. split; [intros Hd; eapply val_wf_eq; eauto|intros Hd; unfold tomb_wf; eapply val_wf_eq; [eauto|exact (H3 Hd)]].
+    + intros u Hu. destruct (Hreach _ Hu) as (u0 & R0 & _ & I0). rewrite <- I0, Earr. apply (w_range _ _ W _ R0).
+    + intros u1 u2 H1 H2 Hne. destruct (Hreach _ H1) as (p1 & R1 & A1 & I1), (Hreach _ H2) as (p2 & R2 & A2 & I2).
+      rewrite <- I1, <- I2. apply (w_sep _ _ W); congruence.
+    + apply (w_tvals _ _ W).
+    + intros b w. rewrite Evm, Evj. destruct (Z.eq_dec b a) as [->|Hne].
+      * intros _ _ _ N. exfalso. apply N. cbn. auto.
+      * rewrite aget_aset_other by assumption. intros Hw Hd N1 N2. apply (w_tomb _ _ W b w Hw Hd N1).
+        intros Hin. apply N2. cbn. auto.
+    + intros b w. rewrite Evm, Evj. destruct (Z.eq_dec b a) as [->|Hne].
+      * rewrite aget_aset_same. intros E; inversion E; subst w. congruence.
+      * rewrite aget_aset_other by assumption. intros Hw Hd N1 N2.
+        eapply coherent_le; eauto. apply (w_range _ _ W). left; eauto.
+        apply (w_coh _ _ W b w Hw Hd N1). intros Hin. apply N2. cbn. auto.
+    + intros b e. rewrite Evj, Evm. cbn [jfirst ventry_addr]. destruct (Z.eqb_spec a b) as [<-|Hne].
+      * intros E; inversion E; subst e. rewrite aget_aset_same. exists v'. split; [reflexivity|exact Hv'd].
+      * rewrite aget_aset_other by congruence. apply (w_jlive _ _ W b e).
+    + rewrite Ecj, Etj. cbn [jwf]. split.
+      * cbn [entry_ok]. split; [eapply val_wf_eq; eauto|]. rewrite cj_tj. split.
+        -- unfold not_del_first. destruct (jfirst (vjournal h) a) as [e'|] eqn:Ef; [|exact I].
+           destruct (w_jlive _ _ W a e' Ef) as (w & Hw & Hwd). congruence.
+        -- intros N1 N2. eapply coherent_le; eauto. apply (w_range _ _ W _ Hvr). apply (w_coh _ _ W a v Hv Hvd N2 N1).
+      * eapply jwf_le; eauto. apply (w_jwf _ _ W).
+    + intros b Hb. rewrite Evm. destruct (Z.eq_dec b a) as [->|Hne].
+      * rewrite aget_aset_same. discriminate.
+      * rewrite aget_aset_other by assumption. apply (w_dirty _ _ W b Hb).
+    + rewrite Evm. apply NoDup_aset, (w_nodup _ _ W).
+    + apply (w_dsorted _ _ W).
+    + apply (w_tnodup _ _ W).
+  - apply (wfa_frame h); auto.
+  - unfold c_remove. rewrite Hxa. unfold a_push. constructor; cbn [core xdirty xvj xaj xrevs xnext app];
+      unfold c_stat, c_index, c_xs; cbn [xs xindex xstat xaccts fst].
+    + intros b. unfold xpeek. rewrite Evm. destruct (Z.eq_dec b a) as [->|Hne].
+      * rewrite (aget_adel_same _ _ (J_sorted _ HJ)), aget_aset_same, Hv'd. reflexivity.
+      * rewrite aget_adel_other, aget_aset_other by assumption. rewrite (r_xs _ _ _ Rx). unfold xpeek.
+        destruct (aget (vmap h) b) as [w|]; [|reflexivity]. destruct (v_deleted w); [reflexivity|].
+        now rewrite (absv_eq h h').
+    + now rewrite (r_index _ _ _ Rx).
+    + rewrite (r_stat _ _ _ Rx). unfold a_decr. now rewrite decr_stat_norm, Est.
+    + apply Rx.
+    + apply Rx.
+    + apply Rx.
+    + apply Rx.
+    + apply Rx.
+    + rewrite Evj. cbn. now rewrite (r_vjlen _ _ _ Rx).
+    + rewrite Evj. cbn. now rewrite (r_vja _ _ _ Rx).
+    + rewrite Ecj, Evj. cbn [length].
+      replace (S (length (vjournal h)) - t)%nat with (S (length (vjournal h) - t)) by (pose proof (w_t _ _ W); lia).
+      rewrite firstn_S_cons. cbn [map abs_entry]. rewrite (r_vj _ _ _ Rx).
+      f_equal. f_equal. unfold absv. change (view h' v) with (view h v). now rewrite Hview.
 Qed.
 
 Lemma fold_sins_In l : forall d0 a, In a (fold_left (fun acc b => sins b acc) l d0) <-> In a d0 \/ In a l.
@@ -957,11 +1136,34 @@ Lemma fin_dirty_a j d0 :
   fold_left (fun acc e => sins (xentry_addr e) acc) j d0 = fold_left (fun acc b => sins b acc) (map xentry_addr j) d0.
 Proof. revert d0. induction j as [|e r IH]; intros d0; cbn; [reflexivity|]. apply IH. Qed.
 
+Lemma jfirst_In j e : In e j -> exists e', jfirst j (ventry_addr e) = Some e'.
+Proof.
+  induction j as [|x r IH]; cbn; [tauto|]. intros [->|Hin].
+  - rewrite Z.eqb_refl. eauto.
+  - destruct (Z.eqb (ventry_addr x) (ventry_addr e)); eauto.
+Qed.
+Lemma jfirst_addr j a e : jfirst j a = Some e -> ventry_addr e = a /\ In e j.
+Proof.
+  induction j as [|x r IH]; cbn; [discriminate|]. destruct (Z.eqb_spec (ventry_addr x) a).
+  - intros H; inversion H; subst. auto.
+  - intros H. destruct (IH H). auto.
+Qed.
+Lemma jfirst_none j a : jfirst j a = None <-> ~ In a (map ventry_addr j).
+Proof.
+  induction j as [|x r IH]; cbn; [tauto|]. destruct (Z.eqb_spec (ventry_addr x) a).
+  - split; [discriminate|]. intros H. exfalso. apply H. auto.
+  - rewrite IH. tauto.
+Qed.
+
+Lemma jlive_present h t e : wfv h t -> In e (vjournal h) -> aget (vmap h) (ventry_addr e) <> None.
+Proof.
+  intros W He. destruct (jfirst_In _ _ He) as (e' & Hf). destruct (w_jlive _ _ W _ _ Hf) as (v & Hv & _). congruence.
+Qed.
+
 Lemma finalise_dirty h t : wfv h t ->
   vdirty (finalise h) = fold_left (fun acc b => sins b acc) (map ventry_addr (vjournal h)) (vdirty h).
 Proof.
-  intros W. unfold finalise; cbn. apply fin_dirty_h. intros e He.
-  destruct (w_jlive _ _ W e He) as (v & Hv & _). congruence.
+  intros W. unfold finalise; cbn. apply fin_dirty_h. intros e He. eapply jlive_present; eauto.
 Qed.
 
 Lemma cj_nil h t : vjournal h = [] -> cj h t = [] /\ tj h t = [].
@@ -977,21 +1179,21 @@ Proof.
   { intros v [H|H]; [left; exact H|]. rewrite Ecj in H. destruct H. }
   constructor.
   - rewrite Ej. cbn. lia.
-  - intros a v Hv. destruct (w_vmap _ _ W _ _ Hv) as [H1 H2]. split; [exact H1|].
-    intros Hdl. eapply val_wf_eq; eauto.
+  - intros a v Hv. destruct (w_vmap _ _ W _ _ Hv) as (H1 & H2 & H3). split; [exact H1|]. split; [intros Hdl; eapply val_wf_eq; eauto|intros Hdl; unfold tomb_wf; eapply val_wf_eq; [eauto|exact (H3 Hdl)]].
   - intros v Hv. rewrite Ea. apply (w_range _ _ W), Hr, Hv.
   - intros v w Hv Hw. apply (w_sep _ _ W); now apply Hr.
   - apply W.
-  - apply W.
+  - intros a v Hv Hdl N1 _. rewrite Hd in N1. rewrite fold_sins_In in N1.
+    apply (w_tomb _ _ W a v Hv Hdl); tauto.
   - intros a v Hv Hdl N1 _. rewrite Hd in N1. rewrite fold_sins_In in N1.
     eapply coherent_le; [apply heap_le_eq, Ea|exact Et| |].
     + apply (w_range _ _ W). left; eauto.
     + apply (w_coh _ _ W a v Hv Hdl); tauto.
-  - rewrite Ej. intros e [].
+  - rewrite Ej. intros a e H; discriminate.
   - rewrite Ecj. exact I.
   - intros a. rewrite Hd, fold_sins_In. intros [H|H].
     + apply (w_dirty _ _ W a H).
-    + apply in_map_iff in H as (e & <- & He). apply (w_jlive _ _ W e He).
+    + apply in_map_iff in H as (e & <- & He). exact (jlive_present h t e W He).
   - apply W.
   - rewrite Hd. apply zsorted_fold_sins, W.
   - apply W.
@@ -1081,11 +1283,11 @@ Lemma sim_list h t x h' :
 Proof.
   intros W Rx HJ. cbn [hpre step a_step]. unfold list_for_update. intros Hp H; inversion H; subst h'; clear H.
   assert (Hs1 : (match vindex h with
-                 | [] => h
-                 | _ :: _ => match t_index h with Some l => w_vindex h l | None => h end
+                 | [] => match t_index h with Some l => w_vindex h l | None => h end
+                 | _ :: _ => h
                  end) = h).
-  { destruct (vindex h) as [|i0 ir] eqn:Ei; [reflexivity|]. destruct (t_index h) as [l|]; [|reflexivity].
-    apply list_eqb_eq in Hp. rewrite <- Hp, <- Ei. apply w_vindex_eta. }
+  { destruct (vindex h) as [|i0 ir] eqn:Ei; [|reflexivity]. destruct (t_index h) as [[|l0 lr]|]; [|discriminate|reflexivity].
+    rewrite <- Ei. apply w_vindex_eta. }
   rewrite Hs1. apply list_vals_spec; assumption.
 Qed.
 
@@ -1117,129 +1319,167 @@ Proof. intros E. unfold cj. now rewrite E. Qed.
 Lemma zsorted_head_notin a r : zsorted (a :: r) -> ~ In a r.
 Proof. intros [H _] Hin. specialize (H _ Hin). lia. Qed.
 
+Lemma srem_absent k l : ~ In k l -> srem k l = l.
+Proof.
+  induction l as [|x r IH]; cbn; [reflexivity|]. intros H. destruct (Z.eqb_spec x k); [exfalso; apply H; auto|].
+  f_equal. apply IH. tauto.
+Qed.
+
+Lemma set_deleted_twice v b c : set_deleted (set_deleted v b) c = set_deleted v c.
+Proof. destruct v; reflexivity. Qed.
+
 Lemma root_vals_sim l : forall h c h',
-  wfv (w_vdirty h l) 0 -> vjournal h = [] -> Rc h c -> ssorted (xs c) -> root_vals h l = Some h' ->
+  wfv (w_vdirty h l) 0 -> vjournal h = [] -> Rc h c -> ssorted (xs c) -> xindex c = map fst (xs c) ->
+  root_vals h l = Some h' ->
   wfv (w_vdirty h' []) 0 /\ Rc h' (c_root_vals c l) /\ same_other h h'.
 Proof.
-  induction l as [|a r IH]; intros h c h' W Ej HR Hs; cbn [root_vals c_root_vals].
+  induction l as [|a r IH]; intros h c h' W Ej HR Hs Hix; cbn [root_vals c_root_vals].
   - intros H; inversion H; subst. auto using same_other_refl.
   - destruct HR as (Rxs & Ridx & Rst & Racc).
-    destruct (w_dirty _ _ W a) as (v & Hv & Hvd); [cbn; auto|]. cbn [vmap w_vdirty] in Hv.
-    rewrite Hv, Hvd. cbn [orb].
-    assert (Hxa : aget (xs c) a = Some (absv h v)) by (rewrite Rxs; now apply xpeek_live).
-    rewrite Hxa. unfold absv at 1. rewrite is_invalid_norm.
+    assert (Hpres : aget (vmap h) a <> None) by (apply (w_dirty _ _ W a); cbn; auto).
+    destruct (aget (vmap h) a) as [v|] eqn:Hv; [clear Hpres|congruence].
     pose proof (zsorted_head_notin _ _ (w_dsorted _ _ W)) as Hnotin. cbn [vdirty w_vdirty] in Hnotin.
-    destruct (w_vmap _ _ W _ _ Hv) as [Hva Hvwf]. specialize (Hvwf Hvd).
+    destruct (w_vmap _ _ W _ _ Hv) as (Hva & Hvlive & Hvtomb).
     assert (Hcj0 : forall s, vjournal s = [] -> forall u, reachable s 0 u -> exists b, aget (vmap s) b = Some u).
     { intros s E u [H|H]; [exact H|]. rewrite (cj_nil0 s E) in H. destruct H. }
-    destruct (is_invalid v) eqn:Einv.
-    + (* deleteValidator *)
-      cbn [stat_ vindex t_vals Model.w_vmap w_t_vals w_vindex].
-      rewrite decr_stat_set_deleted.
-      destruct (decr_stat (stat_ h) v) as [st|] eqn:Est; [|discriminate].
-      set (v' := set_deleted v true).
-      set (h1 := w_stat (w_vindex (w_t_vals (Model.w_vmap h (aset (vmap h) a v')) (adel (t_vals h) a)) (srem a (vindex h))) st).
-      intros Hrun.
-      assert (W1 : wfv (w_vdirty h1 r) 0).
-      { assert (Hv'a : v_addr v' = a) by (destruct v; exact Hva).
-        assert (Hv'aid : v_aid v' = v_aid v) by (destruct v; reflexivity).
-        assert (Hreach : forall u, reachable (w_vdirty h1 r) 0 u ->
-                  exists u0, reachable (w_vdirty h (a :: r)) 0 u0 /\ v_addr u0 = v_addr u /\ v_aid u0 = v_aid u).
-        { intros u Hu. destruct (Hcj0 (w_vdirty h1 r) Ej u Hu) as (b & Hb). cbn in Hb.
-          destruct (Z.eq_dec b a) as [->|Hne].
-          - rewrite aget_aset_same in Hb. inversion Hb; subst u. exists v. split; [left; exists a; exact Hv|].
-            split; congruence.
-          - rewrite aget_aset_other in Hb by assumption. exists u. split; [left; exists b; exact Hb|auto]. }
-        constructor.
-        - cbn. rewrite Ej. cbn. lia.
-        - intros b u. cbn [vmap w_vdirty h1 w_stat w_vindex w_t_vals Model.w_vmap]. destruct (Z.eq_dec b a) as [->|Hne].
-          + rewrite aget_aset_same. intros E; inversion E; subst u. split; [exact Hv'a|].
-            intros Hd. destruct v; discriminate.
-          + rewrite aget_aset_other by assumption. intros Hu. destruct (w_vmap _ _ W _ _ Hu) as [H1 H2].
-            split; [exact H1|]. intros Hd. specialize (H2 Hd). exact H2.
-        - intros u Hu. destruct (Hreach _ Hu) as (u0 & R0 & _ & I0). rewrite <- I0. apply (w_range _ _ W _ R0).
-        - intros u1 u2 H1 H2 Hne. destruct (Hreach _ H1) as (p1 & R1 & A1 & I1), (Hreach _ H2) as (p2 & R2 & A2 & I2).
-          rewrite <- I1, <- I2. apply (w_sep _ _ W); congruence.
-        - intros b p. cbn. destruct (Z.eq_dec b a) as [->|Hne].
-          + rewrite (aget_adel_same_nodup _ _ (w_tnodup _ _ W)). discriminate.
-          + rewrite aget_adel_other by assumption. apply (w_tvals _ _ W).
-        - intros b u. cbn. destruct (Z.eq_dec b a) as [->|Hne].
-          + intros _ _. apply (aget_adel_same_nodup _ _ (w_tnodup _ _ W)).
-          + rewrite aget_aset_other, aget_adel_other by assumption. apply (w_tomb _ _ W).
-        - intros b u. cbn [vmap vdirty vjournal w_vdirty h1 w_stat w_vindex w_t_vals Model.w_vmap]. destruct (Z.eq_dec b a) as [->|Hne].
-          + rewrite aget_aset_same. intros E; inversion E; subst u. destruct v; discriminate.
-          + rewrite aget_aset_other by assumption. intros Hu Hd N1 N2.
-            destruct (w_coh _ _ W b u Hu Hd) as (p & P1 & P2 & P3).
-            * cbn. intros [E|E]; [congruence|auto].
-            * exact N2.
-            * exists p. cbn. rewrite aget_adel_other by assumption. auto.
-        - cbn. rewrite Ej. intros e [].
-        - rewrite cj_nil0 by (cbn; exact Ej). exact I.
-        - intros b Hb. cbn in Hb. cbn [vmap w_vdirty h1 w_stat w_vindex w_t_vals Model.w_vmap].
-          assert (b <> a) by (intros ->; contradiction).
-          rewrite aget_aset_other by assumption. apply (w_dirty _ _ W b). cbn. auto.
-        - cbn. apply NoDup_aset, (w_nodup _ _ W).
-        - cbn. apply (w_dsorted _ _ W).
-        - cbn. apply NoDup_adel, (w_tnodup _ _ W). }
-      match goal with |- _ /\ Rc _ (c_root_vals ?C _) /\ _ => destruct (IH h1 C h' W1 Ej) as (W2 & R2 & S2) end; [| |exact Hrun|].
-      * unfold c_stat, c_index, c_xs. repeat split; cbn.
+    set (v' := set_deleted v true).
+    assert (Hv'a : v_addr v' = a) by (destruct v; exact Hva).
+    assert (Hv'aid : v_aid v' = v_aid v) by (destruct v; reflexivity).
+    assert (Hv'd : v_deleted v' = true) by (destruct v; reflexivity).
+    (* the state after deleteValidator, statistics aside *)
+    set (hd := w_vindex (w_t_vals (Model.w_vmap h (aset (vmap h) a v')) (adel (t_vals h) a)) (srem a (vindex h))).
+    assert (Wdel : forall st, (v_deleted v = true -> tomb_wf (w_vdirty h (a :: r)) a v) ->
+                   (v_deleted v = false -> val_wf (w_vdirty h (a :: r)) a v) ->
+                   wfv (w_vdirty (w_stat hd st) r) 0).
+    { intros st HT HL.
+      assert (Hreach : forall u, reachable (w_vdirty (w_stat hd st) r) 0 u ->
+                exists u0, reachable (w_vdirty h (a :: r)) 0 u0 /\ v_addr u0 = v_addr u /\ v_aid u0 = v_aid u).
+      { intros u Hu. destruct (Hcj0 (w_vdirty (w_stat hd st) r) Ej u Hu) as (b & Hb). cbn in Hb.
+        destruct (Z.eq_dec b a) as [->|Hne].
+        - rewrite aget_aset_same in Hb. inversion Hb; subst u. exists v. split; [left; exists a; exact Hv|].
+          split; congruence.
+        - rewrite aget_aset_other in Hb by assumption. exists u. split; [left; exists b; exact Hb|auto]. }
+      constructor.
+      - cbn. rewrite Ej. cbn. lia.
+      - intros b u. cbn [vmap w_vdirty hd w_stat w_vindex w_t_vals Model.w_vmap]. destruct (Z.eq_dec b a) as [->|Hne].
+        + rewrite aget_aset_same. intros E; inversion E; subst u. split; [exact Hv'a|].
+          split; [intros Hd; congruence|]. intros _. unfold tomb_wf, v'. rewrite set_deleted_twice.
+          destruct (v_deleted v) eqn:Ed.
+          * exact (HT eq_refl).
+          * replace (set_deleted v false) with v by (destruct v; cbn in *; subst; reflexivity). exact (HL eq_refl).
+        + rewrite aget_aset_other by assumption. intros Hu. destruct (w_vmap _ _ W _ _ Hu) as (H1 & H2 & H3).
+          split; [exact H1|]. split; [intros Hd; exact (H2 Hd)|intros Hd; exact (H3 Hd)].
+      - intros u Hu. destruct (Hreach _ Hu) as (u0 & R0 & _ & I0). rewrite <- I0. apply (w_range _ _ W _ R0).
+      - intros u1 u2 H1 H2 Hne. destruct (Hreach _ H1) as (p1 & R1 & A1 & I1), (Hreach _ H2) as (p2 & R2 & A2 & I2).
+        rewrite <- I1, <- I2. apply (w_sep _ _ W); congruence.
+      - intros b p. cbn. destruct (Z.eq_dec b a) as [->|Hne].
+        + rewrite (aget_adel_same_nodup _ _ (w_tnodup _ _ W)). discriminate.
+        + rewrite aget_adel_other by assumption. apply (w_tvals _ _ W).
+      - intros b u. cbn. destruct (Z.eq_dec b a) as [->|Hne].
+        + intros _ _ _ _. apply (aget_adel_same_nodup _ _ (w_tnodup _ _ W)).
+        + rewrite aget_aset_other, aget_adel_other by assumption. intros Hu Hd N1 N2.
+          apply (w_tomb _ _ W b u Hu Hd); [cbn; intros [E|E]; [congruence|auto]|exact N2].
+      - intros b u. cbn [vmap vdirty vjournal w_vdirty hd w_stat w_vindex w_t_vals Model.w_vmap]. destruct (Z.eq_dec b a) as [->|Hne].
+        + rewrite aget_aset_same. intros E; inversion E; subst u. congruence.
+        + rewrite aget_aset_other by assumption. intros Hu Hd N1 N2.
+          destruct (w_coh _ _ W b u Hu Hd) as (p & P1 & P2 & P3).
+          * cbn. intros [E|E]; [congruence|auto].
+          * exact N2.
+          * exists p. cbn. rewrite aget_adel_other by assumption. auto.
+      - cbn. rewrite Ej. intros b e H; discriminate.
+      - rewrite cj_nil0 by (cbn; exact Ej). exact I.
+      - intros b Hb. cbn in Hb. cbn [vmap w_vdirty hd w_stat w_vindex w_t_vals Model.w_vmap].
+        assert (b <> a) by (intros ->; contradiction).
+        rewrite aget_aset_other by assumption. apply (w_dirty _ _ W b). cbn. auto.
+      - cbn. apply NoDup_aset, (w_nodup _ _ W).
+      - cbn. apply (w_dsorted _ _ W).
+      - cbn. apply NoDup_adel, (w_tnodup _ _ W). }
+    destruct (v_deleted v) eqn:Hvd; cbn [orb].
+    + (* already removed: deleteValidator without touching the statistics *)
+      assert (Hxa : aget (xs c) a = None) by (rewrite Rxs; unfold xpeek; now rewrite Hv, Hvd).
+      rewrite Hxa. intros Hrun.
+      assert (W1 : wfv (w_vdirty hd r) 0).
+      { replace hd with (w_stat hd (stat_ h)) by (unfold hd; destruct h; reflexivity).
+        apply Wdel; [intros _; exact (Hvtomb eq_refl)|intros Hc; discriminate]. }
+      assert (Hnidx : ~ In a (vindex h)).
+      { rewrite <- Ridx, Hix. intros Hin. apply aget_keys in Hin. congruence. }
+      destruct (IH hd c h' W1 Ej) as (W2 & R2 & S2); try assumption.
+      * repeat split; cbn.
         -- intros b. unfold xpeek. cbn. destruct (Z.eq_dec b a) as [->|Hne].
-           ++ rewrite aget_aset_same. replace (v_deleted v') with true by (destruct v; reflexivity).
-              apply (aget_adel_same _ _ Hs).
-           ++ rewrite aget_adel_other, aget_aset_other, aget_adel_other by assumption. apply Rxs.
-        -- now rewrite Ridx.
-        -- rewrite Rst. unfold a_decr. now rewrite decr_stat_norm, Est.
-        -- exact Racc.
-      * cbn. apply ssorted_adel, Hs.
-      * split; [exact W2|]. split; [exact R2|]. eapply same_other_trans; [|exact S2]. repeat split.
-    + (* updateValidator *)
-      destruct (val_neg v || dl_neg (view h v)); [discriminate|].
-      set (h1 := index_add (w_t_vals h (aset (t_vals h) a (mkP v (view h v)))) a).
-      intros Hrun.
-      assert (W1 : wfv (w_vdirty h1 r) 0).
-      { assert (Hreach : forall u, reachable (w_vdirty h1 r) 0 u -> reachable (w_vdirty h (a :: r)) 0 u).
-        { intros u Hu. destruct (Hcj0 (w_vdirty h1 r) Ej u Hu) as (b & Hb). left. exists b. exact Hb. }
-        constructor.
-        - cbn. rewrite Ej. cbn. lia.
-        - apply (w_vmap _ _ W).
-        - intros u Hu. apply (w_range _ _ W _ (Hreach _ Hu)).
-        - intros u1 u2 H1 H2. apply (w_sep _ _ W); auto.
-        - intros b p. cbn. destruct (Z.eq_dec b a) as [->|Hne].
-          + rewrite aget_aset_same. intros E; inversion E; subst p. cbn. split; [exact Hva|apply Hvwf].
-          + rewrite aget_aset_other by assumption. apply (w_tvals _ _ W).
-        - intros b u. cbn. intros Hu Hd. destruct (Z.eq_dec b a) as [->|Hne]; [congruence|].
-          rewrite aget_aset_other by assumption. apply (w_tomb _ _ W _ _ Hu Hd).
-        - intros b u. cbn [vmap vdirty vjournal w_vdirty h1 index_add w_vindex w_t_vals]. intros Hu Hd N1 N2.
-          destruct (Z.eq_dec b a) as [->|Hne].
-          + assert (u = v) by congruence. subst u. exists (mkP v (view h v)). cbn.
-            rewrite aget_aset_same. repeat split.
-          + destruct (w_coh _ _ W b u Hu Hd) as (p & P1 & P2 & P3).
-            * cbn. intros [E|E]; [congruence|auto].
-            * exact N2.
-            * exists p. cbn. rewrite aget_aset_other by assumption. auto.
-        - cbn. rewrite Ej. intros e [].
-        - rewrite cj_nil0 by (cbn; exact Ej). exact I.
-        - intros b Hb. cbn in Hb. apply (w_dirty _ _ W b). cbn. auto.
-        - apply (w_nodup _ _ W).
-        - cbn. apply (w_dsorted _ _ W).
-        - cbn. apply NoDup_aset, (w_tnodup _ _ W). }
-      match goal with |- _ /\ Rc _ (c_root_vals ?C _) /\ _ => destruct (IH h1 C h' W1 Ej) as (W2 & R2 & S2) end; [| |exact Hrun|].
-      * unfold c_index. repeat split; cbn.
-        -- intros b. rewrite Rxs. unfold xpeek. cbn.
-           destruct (aget (vmap h) b) as [u|] eqn:Eu; [reflexivity|].
-           assert (b <> a) by congruence. now rewrite aget_aset_other.
-        -- now rewrite Ridx.
+           ++ rewrite aget_aset_same, Hv'd. exact Hxa.
+           ++ rewrite aget_aset_other, aget_adel_other by assumption. apply Rxs.
+        -- now rewrite (srem_absent _ _ Hnidx).
         -- exact Rst.
         -- exact Racc.
-      * exact Hs.
       * split; [exact W2|]. split; [exact R2|]. eapply same_other_trans; [|exact S2]. repeat split.
+    + assert (Hxa : aget (xs c) a = Some (absv h v)) by (rewrite Rxs; now apply xpeek_live).
+      rewrite Hxa. unfold absv at 1. rewrite is_invalid_norm.
+      specialize (Hvlive eq_refl).
+      destruct (is_invalid v) eqn:Einv.
+      * (* deleteValidator *)
+        cbn [stat_ vindex t_vals Model.w_vmap w_t_vals w_vindex].
+        unfold v' at 1. rewrite decr_stat_set_deleted.
+        destruct (decr_stat (stat_ h) v) as [st|] eqn:Est; [|discriminate].
+        fold hd. intros Hrun.
+        assert (W1 : wfv (w_vdirty (w_stat hd st) r) 0) by (apply Wdel; [intros Hc; discriminate|intros _; exact Hvlive]).
+        match goal with |- _ /\ Rc _ (c_root_vals ?C _) /\ _ => destruct (IH (w_stat hd st) C h' W1 Ej) as (W2 & R2 & S2) end; [| | |exact Hrun|].
+        -- unfold c_stat, c_index, c_xs. repeat split; cbn.
+           ++ intros b. unfold xpeek. cbn. destruct (Z.eq_dec b a) as [->|Hne].
+              ** rewrite aget_aset_same, Hv'd. apply (aget_adel_same _ _ Hs).
+              ** rewrite aget_adel_other, aget_aset_other, aget_adel_other by assumption. apply Rxs.
+           ++ now rewrite Ridx.
+           ++ rewrite Rst. unfold a_decr. now rewrite decr_stat_norm, Est.
+           ++ exact Racc.
+        -- cbn. apply ssorted_adel, Hs.
+        -- cbn. rewrite keys_adel, Hix. reflexivity.
+        -- split; [exact W2|]. split; [exact R2|]. eapply same_other_trans; [|exact S2]. repeat split.
+      * (* updateValidator *)
+        destruct (val_neg v || dl_neg (view h v)); [discriminate|].
+        set (h1 := index_add (w_t_vals h (aset (t_vals h) a (mkP v (view h v)))) a).
+        intros Hrun.
+        assert (W1 : wfv (w_vdirty h1 r) 0).
+        { assert (Hreach : forall u, reachable (w_vdirty h1 r) 0 u -> reachable (w_vdirty h (a :: r)) 0 u).
+          { intros u Hu. destruct (Hcj0 (w_vdirty h1 r) Ej u Hu) as (b & Hb). left. exists b. exact Hb. }
+          constructor.
+          - cbn. rewrite Ej. cbn. lia.
+          - apply (w_vmap _ _ W).
+          - intros u Hu. apply (w_range _ _ W _ (Hreach _ Hu)).
+          - intros u1 u2 H1 H2. apply (w_sep _ _ W); auto.
+          - intros b p. cbn. destruct (Z.eq_dec b a) as [->|Hne].
+            + rewrite aget_aset_same. intros E; inversion E; subst p. cbn. split; [exact Hva|apply Hvlive].
+            + rewrite aget_aset_other by assumption. apply (w_tvals _ _ W).
+          - intros b u. cbn. intros Hu Hd N1 N2. destruct (Z.eq_dec b a) as [->|Hne]; [congruence|].
+            rewrite aget_aset_other by assumption.
+            apply (w_tomb _ _ W _ _ Hu Hd); [cbn; intros [E|E]; [congruence|auto]|exact N2].
+          - intros b u. cbn [vmap vdirty vjournal w_vdirty h1 index_add w_vindex w_t_vals]. intros Hu Hd N1 N2.
+            destruct (Z.eq_dec b a) as [->|Hne].
+            + assert (u = v) by congruence. subst u. exists (mkP v (view h v)). cbn.
+              rewrite aget_aset_same. repeat split.
+            + destruct (w_coh _ _ W b u Hu Hd) as (p & P1 & P2 & P3).
+              * cbn. intros [E|E]; [congruence|auto].
+              * exact N2.
+              * exists p. cbn. rewrite aget_aset_other by assumption. auto.
+          - cbn. rewrite Ej. intros b e H; discriminate.
+          - rewrite cj_nil0 by (cbn; exact Ej). exact I.
+          - intros b Hb. cbn in Hb. apply (w_dirty _ _ W b). cbn. auto.
+          - apply (w_nodup _ _ W).
+          - cbn. apply (w_dsorted _ _ W).
+          - cbn. apply NoDup_aset, (w_tnodup _ _ W). }
+        match goal with |- _ /\ Rc _ (c_root_vals ?C _) /\ _ => destruct (IH h1 C h' W1 Ej) as (W2 & R2 & S2) end; [| | |exact Hrun|].
+        -- unfold c_index. repeat split; cbn.
+           ++ intros b. rewrite Rxs. unfold xpeek. cbn.
+              destruct (aget (vmap h) b) as [u|] eqn:Eu; [reflexivity|].
+              assert (b <> a) by congruence. now rewrite aget_aset_other.
+           ++ now rewrite Ridx.
+           ++ exact Rst.
+           ++ exact Racc.
+        -- exact Hs.
+        -- cbn. rewrite Hix. apply sins_present; [apply ssorted_keys, Hs|]. apply aget_keys. congruence.
+        -- split; [exact W2|]. split; [exact R2|]. eapply same_other_trans; [|exact S2]. repeat split.
 Qed.
 
 Lemma w_vdirty_eta h : w_vdirty h (vdirty h) = h.
 Proof. destruct h; reflexivity. Qed.
-
-Lemma J_sorted x : J x -> ssorted (xs (core x)).
-Proof. intros (([Hs _ _ _] & _) & _). exact Hs. Qed.
 
 Lemma root_spec h t x h' :
   wf h t -> R h t x -> J x -> intermediate_root h = Some h' ->
@@ -1255,7 +1495,9 @@ Proof.
   assert (HRc : Rc s0 (core (a_finalise x))).
   { split; [apply R0|]. split; [apply R0|]. split; apply R0. }
   assert (W0' : wfv (w_vdirty s0 (vdirty s0)) 0) by (rewrite w_vdirty_eta; exact W0).
-  destruct (root_vals_sim _ _ _ _ W0' Ej0 HRc (J_sorted _ HJ) Erv) as (W1 & (Rxs & Ridx & Rst & Racc) & S1).
+  assert (Hix0 : xindex (core (a_finalise x)) = map fst (xs (core (a_finalise x)))).
+  { destruct HJ as (([_ _ _ Hix] & _) & _). exact Hix. }
+  destruct (root_vals_sim _ _ _ _ W0' Ej0 HRc (J_sorted _ HJ) Hix0 Erv) as (W1 & (Rxs & Ridx & Rst & Racc) & S1).
   destruct S1 as (Ea & Ejj & Ed & Eac & Eaj & Erev & Enx & Eti & Ets & Ebl & Ead).
   set (s2 := w_t_index (w_vdirty s1 []) (Some (vindex s1))).
   intros H.
@@ -1455,6 +1697,85 @@ Proof.
   replace (S (length r) - t)%nat with (S (length r - t)) by lia. cbn. auto.
 Qed.
 
+(* undoing an update or a removal puts the journalled old record back *)
+Lemma vundo_restore h t c jv' a old e0 r h1 :
+  wfv h t -> wfa h -> Rc h c ->
+  vjournal h = e0 :: r -> ventry_addr e0 = a -> (t <= length r)%nat ->
+  length jv' = length r -> map xentry_addr jv' = map ventry_addr r ->
+  firstn (length r - t) jv' = map (abs_entry h) (firstn (length r - t) r) ->
+  val_wf h a old -> not_del_first r a ->
+  (~ In a (map ventry_addr r) -> ~ In a (vdirty h) -> coherent h a old) ->
+  jwf h (firstn (length r - t) r) (skipn (length r - t) r) ->
+  reachable h t old ->
+  arrs h1 = arrs h -> vmap h1 = aset (vmap h) a old -> vindex h1 = sins a (vindex h) -> vjournal h1 = r ->
+  vdirty h1 = vdirty h -> t_vals h1 = t_vals h -> accts h1 = accts h -> ajournal h1 = ajournal h ->
+  blobs h1 = blobs h -> adirty h1 = adirty h ->
+  wf h1 t /\ Rj h1 t (c_stat (c_set_validator c a (absv h old)) (stat_ h1)) jv'.
+Proof.
+  intros W WA (Rxs & Ridx & Rst & Racc) Ej Hea Htr J1 J2 Hrest Howf Hndf Hcoh Hjtl Hold_r
+         Earr Evm Eidx Evj Edirty Etv Eacc Eaj Ebl Ead.
+  set (k := (length r - t)%nat) in *.
+  assert (Hoa : v_addr old = a) by apply Howf.
+  assert (Hod : v_deleted old = false) by apply Howf.
+  assert (Hcj1 : cj h1 t = firstn k r /\ tj h1 t = skipn k r) by (unfold cj, tj; rewrite Evj; auto).
+  destruct Hcj1 as [Ecj1 Etj1].
+  assert (Hcjh : cj h t = e0 :: firstn k r).
+  { unfold cj. rewrite Ej. cbn [length]. replace (S (length r) - t)%nat with (S k) by (unfold k; lia). reflexivity. }
+  assert (Hreach : forall u, reachable h1 t u -> reachable h t u).
+  { intros u [[b Hb]|Hin].
+    - rewrite Evm in Hb. destruct (Z.eq_dec b a) as [->|Hne].
+      + rewrite aget_aset_same in Hb. inversion Hb; subst u. exact Hold_r.
+      + rewrite aget_aset_other in Hb by assumption. left; eauto.
+    - right. rewrite Hcjh. cbn. apply in_or_app. right. rewrite Ecj1 in Hin. exact Hin. }
+  assert (Hle : heap_le h h1) by (apply heap_le_eq, Earr).
+  split; [split|].
+  - constructor.
+    + rewrite Evj. exact Htr.
+    + intros b u. rewrite Evm. destruct (Z.eq_dec b a) as [->|Hne].
+      * rewrite aget_aset_same. intros E; inversion E; subst u. split; [exact Hoa|].
+        split; [intros _; eapply val_wf_eq; eauto|intros Hd; congruence].
+      * rewrite aget_aset_other by assumption. intros Hb. destruct (w_vmap _ _ W _ _ Hb) as (H1 & H2 & H3).
+        split; [exact H1|]. split; [intros Hd; eapply val_wf_eq; eauto|intros Hd; unfold tomb_wf; eapply val_wf_eq; [eauto|exact (H3 Hd)]].
+    + intros u Hr. rewrite Earr. apply (w_range _ _ W _ (Hreach _ Hr)).
+    + intros u1 u2 H1 H2. apply (w_sep _ _ W); auto.
+    + rewrite Etv. apply (w_tvals _ _ W).
+    + intros b u. rewrite Evm, Etv, Edirty, Evj. destruct (Z.eq_dec b a) as [->|Hne].
+      * rewrite aget_aset_same. intros E; inversion E; subst u. congruence.
+      * rewrite aget_aset_other by assumption. intros Hb Hd N1 N2. apply (w_tomb _ _ W b u Hb Hd N1).
+        rewrite Ej. cbn. intros [E|E]; [congruence|auto].
+    + intros b u. rewrite Evm, Edirty, Evj. destruct (Z.eq_dec b a) as [->|Hne].
+      * rewrite aget_aset_same. intros E; inversion E; subst u. intros _ N1 N2.
+        eapply coherent_le; eauto. apply (w_range _ _ W _ Hold_r).
+      * rewrite aget_aset_other by assumption. intros Hb Hd N1 N2.
+        eapply coherent_le; eauto. apply (w_range _ _ W). left; eauto.
+        apply (w_coh _ _ W b u Hb Hd N1). rewrite Ej. cbn. intros [E|E]; [congruence|auto].
+    + intros b e' He. rewrite Evj in He. rewrite Evm. destruct (Z.eq_dec b a) as [->|Hne].
+      * rewrite aget_aset_same. exists old. split; [reflexivity|]. unfold not_del_first in Hndf. rewrite He in Hndf. congruence.
+      * rewrite aget_aset_other by assumption. apply (w_jlive _ _ W). rewrite Ej. cbn.
+        destruct (Z.eqb_spec (ventry_addr e0) b); [congruence|exact He].
+    + rewrite Ecj1, Etj1. eapply jwf_le; eauto.
+    + intros b. rewrite Edirty, Evm. intros Hb. destruct (Z.eq_dec b a) as [->|Hne].
+      * rewrite aget_aset_same. discriminate.
+      * rewrite aget_aset_other by assumption. apply (w_dirty _ _ W b Hb).
+    + rewrite Evm. apply NoDup_aset, (w_nodup _ _ W).
+    + rewrite Edirty. apply (w_dsorted _ _ W).
+    + rewrite Etv. apply (w_tnodup _ _ W).
+  - apply (wfa_frame h); auto.
+  - unfold c_set_validator, c_index, c_xs, c_stat.
+    split; [split; [|split; [|split]]|split; [|split]]; cbn [xs xindex xstat xaccts].
+    + intros b. unfold xpeek. rewrite Evm, Etv. destruct (Z.eq_dec b a) as [->|Hne].
+      * rewrite aget_sset_same, aget_aset_same, Hod. now rewrite (absv_eq h h1).
+      * rewrite aget_sset_other, aget_aset_other by assumption. rewrite Rxs. unfold xpeek.
+        destruct (aget (vmap h) b) as [u|]; [|reflexivity]. destruct (v_deleted u); [reflexivity|].
+        now rewrite (absv_eq h h1).
+    + now rewrite Eidx, Ridx.
+    + reflexivity.
+    + intros d. rewrite Eacc. apply Racc.
+    + rewrite Evj. exact J1.
+    + rewrite Evj. exact J2.
+    + rewrite Ecj1, Evj. fold k. rewrite Hrest. symmetry. now apply map_abs_entry_eq.
+Qed.
+
 Lemma vundo1_sim h t c jv e r h1 :
   wf h t -> Rj h t c jv -> ssorted (xs c) -> vjournal h = e :: r -> (t < length (vjournal h))%nat ->
   vundo1 (w_vjournal h r) e = Some h1 ->
@@ -1472,9 +1793,7 @@ Proof.
   rewrite Ej in J1, J2. cbn in J1, J2. inversion J1 as [J1']. inversion J2 as [[J2a J2b]].
   subst ex. exists (abs_entry h e), jv'. split; [reflexivity|].
   pose proof (w_jwf _ _ W) as Hjwf. rewrite Ecj, Etj in Hjwf. cbn [jwf] in Hjwf. destruct Hjwf as [Hek Hjtl].
-  assert (Haddrs : map ventry_addr (firstn k r) ++ map ventry_addr (skipn k r) = map ventry_addr r)
-    by (now rewrite <- map_app, firstn_skipn).
-  rewrite Haddrs in Hek.
+  rewrite firstn_skipn in Hek.
   set (h0 := w_vjournal h r) in *.
   assert (Hcj0 : forall hx, vjournal hx = r -> cj hx t = firstn k r /\ tj hx t = skipn k r)
     by (intros hx E; unfold cj, tj; rewrite E; auto).
@@ -1483,51 +1802,73 @@ Proof.
   { intros hx u E [H|H]; [left; exact H|right]. destruct (Hcj0 hx E) as [-> _] in H. exact H. }
   assert (Hjr : forall u, In u (flat_map entry_vals (firstn k r)) -> reachable h t u).
   { intros u Hu'. right. rewrite Ecj. cbn. apply in_or_app. auto. }
-  destruct e as [a|a nw old|a old]; cbn [vundo1] in Hu; [| |destruct Hek].
+  assert (Hhead : forall u, In u (entry_vals e) -> reachable h t u).
+  { intros u Hu'. right. rewrite Ecj. cbn. apply in_or_app. auto. }
+  (* the newest entry decides whether the address is live *)
+  assert (Hjl : exists v, aget (vmap h) (ventry_addr e) = Some v /\ v_deleted v = is_del e).
+  { apply (w_jlive _ _ W). rewrite Ej. cbn. now rewrite Z.eqb_refl. }
+  assert (Hjl_other : forall b e', b <> ventry_addr e -> jfirst r b = Some e' ->
+            exists v, aget (vmap h) b = Some v /\ v_deleted v = is_del e').
+  { intros b e' Hne Hf. apply (w_jlive _ _ W). rewrite Ej. cbn. destruct (Z.eqb_spec (ventry_addr e) b); [congruence|exact Hf]. }
+  destruct e as [a prev idx|a nw old|a old]; cbn [vundo1] in Hu; cbn [ventry_addr is_del] in *.
   - (* VCreate *)
-    destruct Hek as (Hnr & Hnd & Htn).
-    destruct (w_jlive _ _ W (VCreate a)) as (v & Hv & Hvd); [rewrite Ej; cbn; auto|]. cbn [ventry_addr] in Hv.
+    destruct Hek as (-> & Hprev).
+    destruct Hjl as (v & Hv & Hvd).
     cbn [vmap h0 w_vjournal] in Hu. rewrite Hv in Hu. cbn [stat_ h0 w_vjournal] in Hu.
     destruct (decr_stat (stat_ h) v) as [st|] eqn:Est; [|discriminate]. inversion Hu; subst h1; clear Hu.
-    set (h1 := w_vindex (Model.w_vmap (w_stat h0 st) (adel (vmap h) a)) (srem a (vindex h))).
+    set (m := match prev with Some p => aset (vmap h) a p | None => adel (vmap h) a end).
+    set (h1 := w_vindex (Model.w_vmap (w_stat h0 st) m) (srem a (vindex h))).
     assert (Hxa : aget (xs c) a = Some (absv h v)) by (rewrite Rxs; now apply xpeek_live).
+    assert (Hm_other : forall b, b <> a -> aget m b = aget (vmap h) b).
+    { intros b Hne. unfold m. destruct prev; [apply aget_aset_other|apply aget_adel_other]; assumption. }
+    assert (Hm_a : aget m a = prev).
+    { unfold m. destruct prev; [apply aget_aset_same|apply (aget_adel_same_nodup _ _ (w_nodup _ _ W))]. }
     assert (Hreach : forall u, reachable h1 t u -> reachable h t u).
     { intros u Hr. destruct (Hreach0 h1 u eq_refl Hr) as [[b Hb]|Hin]; [|auto].
-      cbn in Hb. left. exists b. destruct (Z.eq_dec b a) as [->|Hne].
-      - rewrite (aget_adel_same_nodup _ _ (w_nodup _ _ W)) in Hb. discriminate.
-      - now rewrite aget_adel_other in Hb. }
+      cbn [vmap h1 w_vindex Model.w_vmap] in Hb. destruct (Z.eq_dec b a) as [->|Hne].
+      - rewrite Hm_a in Hb. apply Hhead. rewrite Hb. cbn. auto.
+      - rewrite Hm_other in Hb by assumption. left; eauto. }
     split; [split|split; [|split; [|repeat split]]].
     + constructor.
       * cbn. exact Htr.
-      * intros b u. cbn. destruct (Z.eq_dec b a) as [->|Hne].
-        -- rewrite (aget_adel_same_nodup _ _ (w_nodup _ _ W)). discriminate.
-        -- rewrite aget_adel_other by assumption. intros Hb. destruct (w_vmap _ _ W _ _ Hb) as [H1 H2].
-           split; [exact H1|]. intros Hd. eapply val_wf_eq; [|exact (H2 Hd)]. reflexivity.
+      * intros b u. cbn [vmap h1 w_vindex Model.w_vmap]. destruct (Z.eq_dec b a) as [->|Hne].
+        -- rewrite Hm_a. intros Hp. rewrite Hp in Hprev. destruct Hprev as (P1 & P2 & P3 & P4).
+           split; [apply P2|]. split; [intros Hd; congruence|]. intros _. unfold tomb_wf. eapply val_wf_eq; [|exact P2]. reflexivity.
+        -- rewrite Hm_other by assumption. intros Hb. destruct (w_vmap _ _ W _ _ Hb) as (H1 & H2 & H3).
+           split; [exact H1|]. split; [intros Hd; eapply val_wf_eq; [|exact (H2 Hd)]; reflexivity|].
+           intros Hd. unfold tomb_wf. eapply val_wf_eq; [|exact (H3 Hd)]. reflexivity.
       * intros u Hr. apply (w_range _ _ W _ (Hreach _ Hr)).
       * intros u1 u2 H1 H2. apply (w_sep _ _ W); auto.
       * apply (w_tvals _ _ W).
-      * intros b u. cbn. destruct (Z.eq_dec b a) as [->|Hne].
-        -- rewrite (aget_adel_same_nodup _ _ (w_nodup _ _ W)). discriminate.
-        -- rewrite aget_adel_other by assumption. apply (w_tomb _ _ W).
-      * intros b u. cbn. destruct (Z.eq_dec b a) as [->|Hne].
-        -- rewrite (aget_adel_same_nodup _ _ (w_nodup _ _ W)). discriminate.
-        -- rewrite aget_adel_other by assumption. intros Hb Hd N1 N2.
+      * intros b u. cbn [vmap vdirty vjournal t_vals h1 w_vindex Model.w_vmap w_stat h0 w_vjournal]. destruct (Z.eq_dec b a) as [->|Hne].
+        -- rewrite Hm_a. intros Hp. rewrite Hp in Hprev. destruct Hprev as (P1 & P2 & P3 & P4). intros _ N1 N2. apply P4; assumption.
+        -- rewrite Hm_other by assumption. intros Hb Hd N1 N2. apply (w_tomb _ _ W b u Hb Hd N1).
+           rewrite Ej. cbn. intros [E|E]; [congruence|auto].
+      * intros b u. cbn [vmap vdirty vjournal t_vals h1 w_vindex Model.w_vmap w_stat h0 w_vjournal]. destruct (Z.eq_dec b a) as [->|Hne].
+        -- rewrite Hm_a. intros Hp. rewrite Hp in Hprev. destruct Hprev as (P1 & _). congruence.
+        -- rewrite Hm_other by assumption. intros Hb Hd N1 N2.
            apply (w_coh _ _ W b u Hb Hd N1). rewrite Ej. cbn. intros [E|E]; [congruence|auto].
-      * intros e He. cbn in He. cbn [vmap h1 w_vindex Model.w_vmap].
-        assert (ventry_addr e <> a). { intros Heq. apply Hnr. apply in_map_iff. exists e. auto. }
-        rewrite aget_adel_other by assumption. apply (w_jlive _ _ W). rewrite Ej. cbn. auto.
+      * intros b e' He. cbn [vjournal h1 w_vindex Model.w_vmap w_stat h0 w_vjournal] in He. cbn [vmap h1 w_vindex Model.w_vmap].
+        destruct (Z.eq_dec b a) as [->|Hne].
+        -- rewrite Hm_a. destruct prev as [p|].
+           ++ destruct Hprev as (P1 & P2 & P3 & P4). rewrite He in P3. exists p. split; [reflexivity|congruence].
+           ++ destruct Hprev as (P1 & _). congruence.
+        -- rewrite Hm_other by assumption. apply (Hjl_other b e' Hne He).
       * destruct (Hcj0 h1 eq_refl) as [-> ->]. eapply jwf_le; [apply heap_le_eq| | |exact Hjtl]; reflexivity.
-      * intros b Hb. cbn in Hb. cbn [vmap h1 w_vindex Model.w_vmap].
-        assert (b <> a) by congruence. rewrite aget_adel_other by assumption. apply (w_dirty _ _ W b Hb).
-      * cbn. apply NoDup_adel, (w_nodup _ _ W).
+      * intros b Hb. cbn in Hb. cbn [vmap h1 w_vindex Model.w_vmap]. destruct (Z.eq_dec b a) as [->|Hne].
+        -- rewrite Hm_a. destruct prev as [p|]; [discriminate|]. destruct Hprev as (_ & P2 & _). contradiction.
+        -- rewrite Hm_other by assumption. apply (w_dirty _ _ W b Hb).
+      * cbn [vmap h1 w_vindex Model.w_vmap]. unfold m. destruct prev; [apply NoDup_aset|apply NoDup_adel]; apply (w_nodup _ _ W).
       * apply (w_dsorted _ _ W).
       * apply (w_tnodup _ _ W).
     + apply (wfa_frame h); auto.
     + cbn [abs_entry c_vundo1]. rewrite Hxa. unfold absv at 1. unfold c_index, c_xs, c_stat.
       split; [split; [|split; [|split]]|split; [|split]]; cbn [xs xindex xstat xaccts].
-      * intros b. unfold xpeek. cbn. destruct (Z.eq_dec b a) as [->|Hne].
-        -- rewrite (aget_adel_same _ _ Hs), (aget_adel_same_nodup _ _ (w_nodup _ _ W)), Htn. reflexivity.
-        -- rewrite !aget_adel_other by assumption. rewrite Rxs. unfold xpeek.
+      * intros b. unfold xpeek. cbn [vmap t_vals h1 w_vindex Model.w_vmap w_stat h0 w_vjournal]. destruct (Z.eq_dec b a) as [->|Hne].
+        -- rewrite (aget_adel_same _ _ Hs), Hm_a. destruct prev as [p|].
+           ++ destruct Hprev as (P1 & _). now rewrite P1.
+           ++ destruct Hprev as (_ & _ & P3). now rewrite P3.
+        -- rewrite aget_adel_other, Hm_other by assumption. rewrite Rxs. unfold xpeek.
            destruct (aget (vmap h) b) as [u|]; [|reflexivity]. destruct (v_deleted u); reflexivity.
       * now rewrite Ridx.
       * rewrite Rst. unfold a_decr. now rewrite decr_stat_norm, Est.
@@ -1538,7 +1879,7 @@ Proof.
         fold k. rewrite Hrest. apply map_abs_entry_eq. reflexivity.
     + cbn [abs_entry c_vundo1]. rewrite Hxa. unfold absv at 1. cbn. apply ssorted_adel, Hs.
   - (* VUpdate *)
-    destruct Hek as (Hnwf & Howf & Hcoh).
+    destruct Hek as (Hnwf & Howf & Hndf & Hcoh).
     set (s1 := set_validator h0 old) in *.
     assert (Hoa : v_addr old = a) by apply Howf.
     assert (Hfields : arrs h1 = arrs h /\ vmap h1 = aset (vmap h) a old /\ vindex h1 = sins a (vindex h) /\
@@ -1559,58 +1900,34 @@ Proof.
         destruct (incr_stat st1 old); [|discriminate]. inversion Hu; subst h1.
         unfold s1, set_validator, index_add; cbn. rewrite Hoa. repeat split. exact Hadj. }
     destruct Hfields as (Earr & Evm & Eidx & Evj & Edirty & Etv & Eacc & Eaj & Ebl & Erev & Enx & Ead & Estat).
-    assert (Hold_r : reachable h t old) by (right; rewrite Ecj; cbn; auto).
-    assert (Hreach : forall u, reachable h1 t u -> reachable h t u).
-    { intros u Hr. destruct (Hreach0 h1 u Evj Hr) as [[b Hb]|Hin]; [|auto].
-      rewrite Evm in Hb. destruct (Z.eq_dec b a) as [->|Hne].
-      - rewrite aget_aset_same in Hb. inversion Hb; subst u. exact Hold_r.
-      - rewrite aget_aset_other in Hb by assumption. left; eauto. }
-    assert (Hle : heap_le h h1) by (apply heap_le_eq, Earr).
-    split; [split|split; [|split; [|repeat split; assumption]]].
-    + constructor.
-      * rewrite Evj. exact Htr.
-      * intros b u. rewrite Evm. destruct (Z.eq_dec b a) as [->|Hne].
-        -- rewrite aget_aset_same. intros E; inversion E; subst u. split; [exact Hoa|]. intros _.
-           eapply val_wf_eq; eauto.
-        -- rewrite aget_aset_other by assumption. intros Hb. destruct (w_vmap _ _ W _ _ Hb) as [H1 H2].
-           split; [exact H1|]. intros Hd. eapply val_wf_eq; eauto.
-      * intros u Hr. rewrite Earr. apply (w_range _ _ W _ (Hreach _ Hr)).
-      * intros u1 u2 H1 H2. apply (w_sep _ _ W); auto.
-      * rewrite Etv. apply (w_tvals _ _ W).
-      * intros b u. rewrite Evm, Etv. destruct (Z.eq_dec b a) as [->|Hne].
-        -- rewrite aget_aset_same. intros E; inversion E; subst u. intros Hd. destruct Howf as (_ & Hod & _). congruence.
-        -- rewrite aget_aset_other by assumption. apply (w_tomb _ _ W).
-      * intros b u. rewrite Evm, Edirty, Evj. destruct (Z.eq_dec b a) as [->|Hne].
-        -- rewrite aget_aset_same. intros E; inversion E; subst u. intros _ N1 N2.
-           eapply coherent_le; eauto. apply (w_range _ _ W _ Hold_r).
-        -- rewrite aget_aset_other by assumption. intros Hb Hd N1 N2.
-           eapply coherent_le; eauto. apply (w_range _ _ W). left; eauto.
-           apply (w_coh _ _ W b u Hb Hd N1). rewrite Ej. cbn. intros [E|E]; [congruence|auto].
-      * intros e He. rewrite Evj in He. rewrite Evm. destruct (Z.eq_dec (ventry_addr e) a) as [->|Hne].
-        -- rewrite aget_aset_same. exists old. split; [reflexivity|apply Howf].
-        -- rewrite aget_aset_other by assumption. apply (w_jlive _ _ W). rewrite Ej. cbn. auto.
-      * destruct (Hcj0 h1 Evj) as [-> ->]. eapply jwf_le; eauto.
-      * intros b. rewrite Edirty, Evm. intros Hb. destruct (Z.eq_dec b a) as [->|Hne].
-        -- rewrite aget_aset_same. exists old. split; [reflexivity|apply Howf].
-        -- rewrite aget_aset_other by assumption. apply (w_dirty _ _ W b Hb).
-      * rewrite Evm. apply NoDup_aset, (w_nodup _ _ W).
-      * rewrite Edirty. apply (w_dsorted _ _ W).
-      * rewrite Etv. apply (w_tnodup _ _ W).
-    + apply (wfa_frame h); auto.
-    + cbn [abs_entry c_vundo1]. unfold c_set_validator, c_index, c_xs, c_stat.
-      split; [split; [|split; [|split]]|split; [|split]]; cbn [xs xindex xstat xaccts fst absv].
-      * intros b. unfold xpeek. rewrite Evm, Etv. destruct (Z.eq_dec b a) as [->|Hne].
-        -- rewrite aget_sset_same, aget_aset_same. destruct Howf as (_ & Hod & _). rewrite Hod.
-           now rewrite (absv_eq h h1).
-        -- rewrite aget_sset_other, aget_aset_other by assumption. rewrite Rxs. unfold xpeek.
-           destruct (aget (vmap h) b) as [u|]; [|reflexivity]. destruct (v_deleted u); [reflexivity|].
-           now rewrite (absv_eq h h1).
-      * now rewrite Eidx, Ridx.
-      * rewrite Rst. exact Estat.
-      * intros d. rewrite Eacc. apply Racc.
-      * rewrite Evj. exact J1'.
-      * rewrite Evj. exact J2b.
-      * destruct (Hcj0 h1 Evj) as [-> _]. rewrite Evj. fold k. rewrite Hrest. symmetry. now apply map_abs_entry_eq.
+    assert (Hrestore : wf h1 t /\ Rj h1 t (c_stat (c_set_validator c a (absv h old)) (stat_ h1)) jv').
+    { apply (vundo_restore h t c jv' a old (VUpdate a nw old) r h1 W WA (conj Rxs (conj Ridx (conj Rst Racc))) Ej eq_refl Htr
+               J1' J2b Hrest Howf Hndf Hcoh Hjtl (Hhead old (or_intror (or_introl eq_refl)))); assumption. }
+    destruct Hrestore as [W1 R1].
+    split; [exact W1|]. split; [|split; [|repeat split; assumption]].
+    + cbn [abs_entry c_vundo1]. cbn [fst absv]. change (xstat (c_set_validator c a (absv h old))) with (xstat c).
+      rewrite Rst, Estat. exact R1.
+    + cbn [abs_entry c_vundo1]. unfold c_set_validator, c_index, c_xs, c_stat. cbn. apply ssorted_sset, Hs.
+  - (* VDelete *)
+    destruct Hek as (Howf & Hndf & Hcoh).
+    set (s1 := set_validator h0 old) in *.
+    assert (Hoa : v_addr old = a) by apply Howf.
+    unfold with_stat in Hu. change (stat_ s1) with (stat_ h) in Hu.
+    destruct (incr_stat (stat_ h) old) as [st|] eqn:Est; [|discriminate]. inversion Hu; subst h1; clear Hu.
+    set (h1 := w_stat s1 st).
+    assert (Hfields : arrs h1 = arrs h /\ vmap h1 = aset (vmap h) a old /\ vindex h1 = sins a (vindex h) /\
+              vjournal h1 = r /\ vdirty h1 = vdirty h /\ t_vals h1 = t_vals h /\ accts h1 = accts h /\
+              ajournal h1 = ajournal h /\ blobs h1 = blobs h /\ revs h1 = revs h /\ next_id h1 = next_id h /\
+              adirty h1 = adirty h).
+    { unfold h1, s1, set_validator, index_add; cbn. rewrite Hoa. repeat split. }
+    destruct Hfields as (Earr & Evm & Eidx & Evj & Edirty & Etv & Eacc & Eaj & Ebl & Erev & Enx & Ead).
+    assert (Hrestore : wf h1 t /\ Rj h1 t (c_stat (c_set_validator c a (absv h old)) (stat_ h1)) jv').
+    { apply (vundo_restore h t c jv' a old (VDelete a old) r h1 W WA (conj Rxs (conj Ridx (conj Rst Racc))) Ej eq_refl Htr
+               J1' J2b Hrest Howf Hndf Hcoh Hjtl (Hhead old (or_introl eq_refl))); assumption. }
+    destruct Hrestore as [W1 R1].
+    split; [exact W1|]. split; [|split; [|repeat split; assumption]].
+    + cbn [abs_entry c_vundo1]. cbn [fst absv]. change (xstat (c_set_validator c a (absv h old))) with (xstat c).
+      rewrite Rst. unfold a_incr. rewrite incr_stat_norm, Est. exact R1.
     + cbn [abs_entry c_vundo1]. unfold c_set_validator, c_index, c_xs, c_stat. cbn. apply ssorted_sset, Hs.
 Qed.
 
@@ -2242,39 +2559,6 @@ Proof. reflexivity. Qed.
 Lemma val_ok_dsorted x a v l : J x -> aget (xs (core x)) a = Some (v, l) -> dsorted l.
 Proof. intros (([_ Hv _ _] & _) & _) H. destruct (Hv _ _ H) as (_&_&_&_&_&_&_&[Hs _]&_). exact Hs. Qed.
 
-(* growing the heap (allocations, or mutation of arrays nothing reachable points to) *)
-Lemma wf_grow h t A : heap_le h (w_arrs h A) -> wf h t -> wf (w_arrs h A) t.
-Proof.
-  intros Hle [W WA]. set (h' := w_arrs h A).
-  split; [|apply (wfa_frame h); auto]. constructor.
-  - apply W.
-  - intros a v Hv. destruct (w_vmap _ _ W a v Hv) as [H1 H2]. split; [exact H1|].
-    intros Hd. eapply val_wf_le; eauto.
-  - intros v Hr. pose proof (w_range _ _ W v Hr). destruct Hle as [L _]. cbn in *. lia.
-  - apply (w_sep _ _ W).
-  - apply (w_tvals _ _ W).
-  - apply (w_tomb _ _ W).
-  - intros a v Hv Hd N1 N2. eapply coherent_le; eauto.
-    apply (w_range _ _ W). left. eauto.
-    apply (w_coh _ _ W a v Hv Hd N1 N2).
-  - apply (w_jlive _ _ W).
-  - eapply jwf_le; eauto. apply (w_jwf _ _ W).
-  - apply (w_dirty _ _ W).
-  - apply (w_nodup _ _ W).
-  - apply (w_dsorted _ _ W).
-  - apply (w_tnodup _ _ W).
-Qed.
-
-Lemma R_grow h t x A : heap_le h (w_arrs h A) -> wf h t -> R h t x -> R (w_arrs h A) t x.
-Proof.
-  intros Hle [W WA] Rx. constructor; try apply Rx.
-  - intros a. rewrite (r_xs _ _ _ Rx). symmetry. apply xpeek_le; auto.
-    intros v Hv. apply (w_range _ _ W). left; eauto.
-  - cbn [vjournal w_arrs]. rewrite (r_vj _ _ _ Rx). symmetry.
-    change (cj (w_arrs h A) t) with (cj h t).
-    apply map_abs_entry_le; [assumption|]. intros v Hv. apply (w_range _ _ W). right. exact Hv.
-Qed.
-
 Lemma w_arrs_w_arrs h A B : w_arrs (w_arrs h A) B = w_arrs h B.
 Proof. reflexivity. Qed.
 
@@ -2302,7 +2586,7 @@ Proof.
     destruct (Z.eqb_spec amt 0); [|contradiction]. rewrite a_push_nil. auto. }
   cbn [orb] in Hp. apply andb_prop in Hp as [Hacc Hnn].
   destruct (aget (accts h) d) as [ac0|] eqn:Ead; [|discriminate].
-  pose proof W1 as [W1v WA1]. destruct (w_vmap _ _ W1v _ _ Hv) as [Hva Hvwf]. specialize (Hvwf Hvd).
+  pose proof W1 as [W1v WA1]. destruct (w_vmap _ _ W1v _ _ Hv) as (Hva & Hvwf & _). specialize (Hvwf Hvd).
   set (l := stripd (view h1 v)) in *.
   assert (Hview : view h1 v = map Some l) by (apply view_stripd, Hvwf).
   assert (Hxs : aget (xs (core x)) a = Some (norm v, l)) by (rewrite (r_xs _ _ _ Rx), Hx; reflexivity).
@@ -2474,7 +2758,7 @@ Proof.
     + apply (w_tvals _ _ W1).
     + intros a v H; discriminate.
     + intros a v H; discriminate.
-    + intros e [].
+    + intros a e H; discriminate.
     + exact I.
     + intros a [].
     + constructor.
@@ -2499,7 +2783,7 @@ Proof.
     + intros a. rewrite (r_xs _ _ _ R1). unfold xpeek. cbn.
       destruct (aget (vmap s1) a) as [v|] eqn:Ev; [|reflexivity].
       destruct (v_deleted v) eqn:Ed.
-      * now rewrite (w_tomb _ _ W1 _ _ Ev Ed).
+      * rewrite (w_tomb _ _ W1 _ _ Ev Ed); [reflexivity|rewrite Hd1; auto|rewrite Hj1; auto].
       * destruct (w_coh _ _ W1 a v Ev Ed) as (p & P1 & P2 & P3); [rewrite Hd1; auto|rewrite Hj1; auto|].
         rewrite P1. destruct (w_tvals _ _ W1 _ _ P1) as [_ Hn]. rewrite Hn. unfold absv.
         rewrite P3, P2. reflexivity.
@@ -2532,28 +2816,43 @@ Record CI (h s : state) (m : list (Z * val)) (dirt : list Z) : Prop := {
   ci_sorted : zsorted dirt;
   ci_dirt : forall a, In a dirt <-> aget m a <> None;
   ci_vals : forall a w, aget m a = Some w ->
-      exists v, aget (vmap h) a = Some v /\ v_deleted v = false /\ v_deleted w = false /\ norm w = norm v /\
-                view s w = view h v /\ val_wf s a w /\ (v_aid w = v_aid v \/ (length (arrs h) <= v_aid w)%nat);
+      exists v, aget (vmap h) a = Some v /\ v_deleted w = v_deleted v /\ norm w = norm v /\
+                view s w = view h v /\ val_wf s a (set_deleted w false) /\
+                (v_aid w = v_aid v \/ (length (arrs h) <= v_aid w)%nat);
   ci_sep : forall a b wa wb, a <> b -> aget m a = Some wa -> aget m b = Some wb -> v_aid wa <> v_aid wb }.
 
 Lemma val_wf_view_le h s a v : heap_le h s -> val_wf h a v -> view s v = view h v.
 Proof. intros Hle (_ & _ & H3 & _). now apply view_le. Qed.
 
+Lemma set_deleted_false_live v : v_deleted v = false -> set_deleted v false = v.
+Proof. destruct v; cbn. intros ->. reflexivity. Qed.
+
+Lemma vmap_wf_any h t a v : wfv h t -> aget (vmap h) a = Some v -> v_addr v = a /\ val_wf h a (set_deleted v false).
+Proof.
+  intros W Hv. destruct (w_vmap _ _ W _ _ Hv) as (H1 & H2 & H3). split; [exact H1|].
+  destruct (v_deleted v) eqn:Ed; [exact (H3 eq_refl)|]. rewrite set_deleted_false_live by assumption. exact (H2 eq_refl).
+Qed.
+
+Lemma view_set_deleted h v b : view h (set_deleted v b) = view h v.
+Proof. destruct v; reflexivity. Qed.
+
 Lemma deep_copy_spec h t s m dirt a v :
-  wfv h t -> CI h s m dirt -> aget (vmap h) a = Some v -> v_deleted v = false ->
+  wfv h t -> CI h s m dirt -> aget (vmap h) a = Some v ->
   exists s' w, deep_copy s v = Some (s', w) /\ CI h s' (aset m a w) (sins a dirt).
 Proof.
-  intros W C Hv Hvd. destruct (w_vmap _ _ W _ _ Hv) as [Hva Hvwf]. specialize (Hvwf Hvd).
+  intros W C Hv. destruct (vmap_wf_any h t a v W Hv) as [Hva Hvwf].
   pose proof (ci_le _ _ _ _ C) as Hle.
-  assert (Hview : view s v = view h v) by (eapply val_wf_view_le; eauto).
-  assert (Hvwfs : val_wf s a v) by (eapply val_wf_le; eauto).
+  assert (Hview : view s v = view h v).
+  { rewrite <- (view_set_deleted s v false), <- (view_set_deleted h v false). eapply val_wf_view_le; eauto. }
+  assert (Hvwfs : val_wf s a (set_deleted v false)) by (eapply val_wf_le; eauto).
+  assert (Haidv : (v_aid v < length (arrs h))%nat) by (destruct Hvwf as (_ & _ & H3 & _); destruct v; exact H3).
   assert (Hsep_old : forall b wb, a <> b -> aget m b = Some wb -> v_aid wb <> v_aid v /\ (v_aid wb < length (arrs s))%nat).
-  { intros b wb Hne Hb. destruct (ci_vals _ _ _ _ C _ _ Hb) as (vb & B1 & B2 & B3 & B4 & B5 & B6 & B7).
-    split; [|apply B6]. destruct B7 as [E|E].
-    - rewrite E. destruct (w_vmap _ _ W _ _ B1) as [Hba _]. apply (w_sep _ _ W); [left; eauto|left; eauto|congruence].
-    - destruct Hvwf as (_ & _ & Hr & _). lia. }
-  assert (Hcommon : forall s' w, heap_le s s' -> s' = w_arrs h (arrs s') -> v_deleted w = false -> norm w = norm v ->
-            view s' w = view h v -> val_wf s' a w -> (v_aid w = v_aid v \/ (length (arrs h) <= v_aid w)%nat) ->
+  { intros b wb Hne Hb. destruct (ci_vals _ _ _ _ C _ _ Hb) as (vb & B1 & B2 & B3 & B5 & B6 & B7).
+    split; [|destruct B6 as (_ & _ & H3 & _); destruct wb; exact H3]. destruct B7 as [E|E].
+    - rewrite E. destruct (w_vmap _ _ W _ _ B1) as (Hba & _). apply (w_sep _ _ W); [left; eauto|left; eauto|congruence].
+    - lia. }
+  assert (Hcommon : forall s' w, heap_le s s' -> s' = w_arrs h (arrs s') -> v_deleted w = v_deleted v -> norm w = norm v ->
+            view s' w = view h v -> val_wf s' a (set_deleted w false) -> (v_aid w = v_aid v \/ (length (arrs h) <= v_aid w)%nat) ->
             (forall b wb, a <> b -> aget m b = Some wb -> v_aid wb <> v_aid w) ->
             CI h s' (aset m a w) (sins a dirt)).
   { intros s' w Hle' Hs' Hwd Hwn Hwv Hwwf Hwaid Hwsep. constructor.
@@ -2566,11 +2865,12 @@ Proof.
       + rewrite aget_aset_other by assumption. rewrite (ci_dirt _ _ _ _ C). intuition.
     - intros b wb. destruct (Z.eq_dec b a) as [->|Hne].
       + rewrite aget_aset_same. intros E; inversion E; subst wb. exists v.
-        exact (conj Hv (conj Hvd (conj Hwd (conj Hwn (conj Hwv (conj Hwwf Hwaid)))))).
+        exact (conj Hv (conj Hwd (conj Hwn (conj Hwv (conj Hwwf Hwaid))))).
       + rewrite aget_aset_other by assumption. intros Hb.
-        destruct (ci_vals _ _ _ _ C _ _ Hb) as (vb & B1 & B2 & B3 & B4 & B5 & B6 & B7).
-        exists vb. split; [exact B1|]. split; [exact B2|]. split; [exact B3|]. split; [exact B4|].
-        split; [rewrite <- B5; apply view_le; [assumption|apply B6]|]. split; [eapply val_wf_le; eauto|exact B7].
+        destruct (ci_vals _ _ _ _ C _ _ Hb) as (vb & B1 & B2 & B3 & B5 & B6 & B7).
+        exists vb. split; [exact B1|]. split; [exact B2|]. split; [exact B3|].
+        assert (Hr : (v_aid wb < length (arrs s))%nat) by (destruct B6 as (_ & _ & H3 & _); destruct wb; exact H3).
+        split; [rewrite <- B5; apply view_le; assumption|]. split; [eapply val_wf_le; eauto|exact B7].
     - intros b1 b2 w1 w2 Hne. destruct (Z.eq_dec b1 a) as [->|N1], (Z.eq_dec b2 a) as [->|N2]; try congruence.
       + rewrite aget_aset_same, aget_aset_other by assumption. intros E Hb; inversion E; subst w1.
         intros Heq. apply (Hwsep _ _ Hne Hb). congruence.
@@ -2582,24 +2882,27 @@ Proof.
     + apply heap_le_refl.
     + apply C.
     + intros b wb Hne Hb. apply (Hsep_old _ _ Hne Hb).
-  - rewrite Hview. destruct Hvwf as (A1 & A2 & A3 & A4 & A5). rewrite A5. unfold alloc.
+  - rewrite Hview. destruct Hvwf as (A1 & A2 & A3 & A4 & A5).
+    rewrite view_set_deleted in A5. rewrite A5. unfold alloc.
     set (s' := w_arrs s (arrs s ++ [view h v])). set (w := set_view v (length (arrs s)) (v_len v)).
     exists s', w. split; [reflexivity|].
     assert (Harrof : arr_of s' (length (arrs s)) = view h v).
     { unfold arr_of, s'; cbn. rewrite app_nth2 by lia. now rewrite Nat.sub_diag. }
-    assert (Hlenv : length (view h v) = v_len v) by (unfold view; apply firstn_length_le, A4).
+    assert (Hlenv : length (view h v) = v_len v).
+    { unfold view. apply firstn_length_le. destruct v; exact A4. }
     assert (Hwv : view s' w = view h v).
     { unfold view at 1. replace (v_aid w) with (length (arrs s)) by (destruct v; reflexivity).
       replace (v_len w) with (v_len v) by (destruct v; reflexivity). rewrite Harrof, <- Hlenv. apply firstn_all. }
     apply Hcommon.
     + apply heap_le_alloc.
     + unfold s'. rewrite (ci_s _ _ _ _ C). reflexivity.
-    + destruct v; exact Hvd.
+    + destruct v; reflexivity.
     + apply norm_set_view.
     + exact Hwv.
-    + unfold val_wf. rewrite Hwv. replace (v_aid w) with (length (arrs s)) by (destruct v; reflexivity).
-      replace (v_len w) with (v_len v) by (destruct v; reflexivity). rewrite Harrof.
-      split; [destruct v; exact A1|]. split; [destruct v; exact Hvd|]. cbn [arrs s' w_arrs]. rewrite app_length. cbn.
+    + unfold val_wf. rewrite view_set_deleted, Hwv.
+      replace (v_aid (set_deleted w false)) with (length (arrs s)) by (destruct v; reflexivity).
+      replace (v_len (set_deleted w false)) with (v_len v) by (destruct v; reflexivity). rewrite Harrof.
+      split; [destruct v; exact A1|]. split; [destruct v; reflexivity|]. cbn [arrs s' w_arrs]. rewrite app_length. cbn.
       split; [lia|]. split; [lia|exact A5].
     + right. replace (v_aid w) with (length (arrs s)) by (destruct v; reflexivity). destruct Hle. lia.
     + intros b wb Hne Hb. destruct (Hsep_old _ _ Hne Hb) as [_ Hr].
@@ -2608,7 +2911,7 @@ Qed.
 
 Lemma copy_vals1_spec h t l : forall s m dirt r,
   wfv h t -> CI h s m dirt ->
-  (forall a, In a l -> exists v, aget (vmap h) a = Some v /\ v_deleted v = false) ->
+  (forall a, In a l -> aget (vmap h) a <> None) ->
   copy_vals1 s l m dirt = Some r ->
   let '(s', m', dirt') := r in
   CI h s' m' dirt' /\ (forall a, aget m' a <> None <-> aget m a <> None \/ In a l).
@@ -2616,8 +2919,8 @@ Proof.
   induction l as [|a r0 IH]; intros s m dirt r W C Hl; cbn [copy_vals1].
   - intros H; inversion H; subst r. split; [exact C|]. intros a. cbn. tauto.
   - assert (vmap s = vmap h) as Evm by (rewrite (ci_s _ _ _ _ C); reflexivity). rewrite Evm.
-    destruct (Hl a (or_introl eq_refl)) as (v & Hv & Hvd). rewrite Hv.
-    destruct (deep_copy_spec h t s m dirt a v W C Hv Hvd) as (s' & w & Hdc & C'). rewrite Hdc.
+    pose proof (Hl a (or_introl eq_refl)) as Hpa. destruct (aget (vmap h) a) as [v|] eqn:Hv; [|congruence].
+    destruct (deep_copy_spec h t s m dirt a v W C Hv) as (s' & w & Hdc & C'). rewrite Hdc.
     intros Hr. specialize (IH s' (aset m a w) (sins a dirt) r W C' (fun b Hb => Hl b (or_intror Hb)) Hr).
     destruct r as [[s2 m2] d2]. destruct IH as [C2 Hk]. split; [exact C2|].
     intros b. rewrite Hk. cbn. destruct (Z.eq_dec b a) as [->|Hne].
@@ -2627,8 +2930,8 @@ Qed.
 
 Lemma copy_vals2_spec h t l : forall s m dirt idx r,
   wfv h t -> CI h s m dirt -> zsorted idx ->
-  (forall a, In a l -> exists v, aget (vmap h) a = Some v /\ v_deleted v = false) ->
-  (forall a, In a l -> In a idx) ->
+  (forall a, In a l -> aget (vmap h) a <> None) ->
+  (forall a, In a l -> aget m a <> None \/ In a idx) ->
   copy_vals2 s l m dirt idx = Some r ->
   let '(s', m', dirt', idx') := r in
   CI h s' m' dirt' /\ idx' = idx /\ (forall a, aget m' a <> None <-> aget m a <> None \/ In a l).
@@ -2640,10 +2943,15 @@ Proof.
       destruct r as [[[s2 m2] d2] i2]. destruct IH as (C2 & Hi & Hk). split; [exact C2|]. split; [exact Hi|].
       intros b. rewrite Hk. cbn. split; [tauto|]. intros [H|[<-|H]]; [auto| |auto]. left. congruence.
     + assert (vmap s = vmap h) as Evm by (rewrite (ci_s _ _ _ _ C); reflexivity). rewrite Evm.
-      destruct (Hl a (or_introl eq_refl)) as (v & Hv & Hvd). rewrite Hv.
-      destruct (deep_copy_spec h t s m dirt a v W C Hv Hvd) as (s' & w & Hdc & C'). rewrite Hdc.
-      rewrite (sins_present a idx Hzs (Hidx a (or_introl eq_refl))).
-      intros Hr. specialize (IH s' (aset m a w) (sins a dirt) idx r W C' Hzs (fun b Hb => Hl b (or_intror Hb)) (fun b Hb => Hidx b (or_intror Hb)) Hr).
+      pose proof (Hl a (or_introl eq_refl)) as Hpa. destruct (aget (vmap h) a) as [v|] eqn:Hv; [|congruence].
+      destruct (deep_copy_spec h t s m dirt a v W C Hv) as (s' & w & Hdc & C'). rewrite Hdc.
+      assert (Hina : In a idx) by (destruct (Hidx a (or_introl eq_refl)) as [H|H]; [congruence|exact H]).
+      rewrite (sins_present a idx Hzs Hina).
+      intros Hr.
+      assert (Hidx' : forall b, In b r0 -> aget (aset m a w) b <> None \/ In b idx).
+      { intros b Hb. destruct (Hidx b (or_intror Hb)) as [H|H]; [|auto]. left.
+        destruct (Z.eq_dec b a) as [->|Hne]; [rewrite aget_aset_same; discriminate|now rewrite aget_aset_other]. }
+      specialize (IH s' (aset m a w) (sins a dirt) idx r W C' Hzs (fun b Hb => Hl b (or_intror Hb)) Hidx' Hr).
       destruct r as [[[s2 m2] d2] i2]. destruct IH as (C2 & Hi & Hk). split; [exact C2|]. split; [exact Hi|].
       intros b. rewrite Hk. cbn. destruct (Z.eq_dec b a) as [->|Hne].
       * rewrite aget_aset_same. split; [auto|intros _; left; discriminate].
@@ -2692,15 +3000,19 @@ Proof.
     - constructor.
     - exact I.
     - intros a. cbn. tauto. }
-  assert (Hl1 : forall a, In a (vj_dirties h) -> exists v, aget (vmap h) a = Some v /\ v_deleted v = false).
-  { intros a Ha. apply vj_dirties_In in Ha. apply in_map_iff in Ha as (e & <- & He). apply (w_jlive _ _ W e He). }
+  assert (Hl1 : forall a, In a (vj_dirties h) -> aget (vmap h) a <> None).
+  { intros a Ha. apply vj_dirties_In in Ha. apply in_map_iff in Ha as (e & <- & He). exact (jlive_present h t e W He). }
   destruct (copy_vals1 h (vj_dirties h) [] []) as [[[s1 m1] d1]|] eqn:E1; [|discriminate].
   pose proof (copy_vals1_spec h t (vj_dirties h) h [] [] _ W C0 Hl1 E1) as [C1 K1].
   assert (Hzs : zsorted (vindex h)) by (eapply J_index_sorted; eauto).
-  assert (Hl2 : forall a, In a (vdirty h) -> exists v, aget (vmap h) a = Some v /\ v_deleted v = false) by apply (w_dirty _ _ W).
-  assert (Hidx : forall a, In a (vdirty h) -> In a (vindex h)).
-  { intros a Ha. destruct (Hl2 a Ha) as (v & Hv & Hvd).
-    destruct (index_live h t x a Rx HJ) as [Hin _]; [rewrite (xpeek_live _ _ _ Hv Hvd); discriminate|exact Hin]. }
+  assert (Hl2 : forall a, In a (vdirty h) -> aget (vmap h) a <> None) by apply (w_dirty _ _ W).
+  assert (Hidx : forall a, In a (vdirty h) -> aget m1 a <> None \/ In a (vindex h)).
+  { intros a Ha. rewrite forallb_forall in Hp. specialize (Hp a Ha).
+    destruct (mem a (vj_dirties h)) eqn:Em.
+    - left. apply K1. right. now apply mem_In.
+    - cbn in Hp. right. pose proof (Hl2 a Ha) as Hpa. destruct (aget (vmap h) a) as [v|] eqn:Hv; [|congruence].
+      destruct (v_deleted v) eqn:Hvd; [discriminate|].
+      destruct (index_live h t x a Rx HJ) as [Hin _]; [rewrite (xpeek_live _ _ _ Hv Hvd); discriminate|exact Hin]. }
   destruct (copy_vals2 s1 (vdirty h) m1 d1 (vindex h)) as [[[[s2 m2] d2] idx]|] eqn:E2; [|discriminate].
   pose proof (copy_vals2_spec h t (vdirty h) s1 m1 d1 (vindex h) _ W C1 Hzs Hl2 Hidx E2) as (C2 & -> & K2).
   intros H; inversion H; subst h'; clear H.
@@ -2723,24 +3035,25 @@ Proof.
   assert (Harr : arrs h' = arrs s2) by reflexivity.
   assert (Hreach : forall u, reachable h' 0 u -> exists a, aget m2 a = Some u).
   { intros u [Hu|Hu]; [exact Hu|destruct Hu]. }
-  assert (Hval : forall a w, aget m2 a = Some w -> v_addr w = a /\ val_wf h' a w /\ v_deleted w = false).
-  { intros a w Hw. destruct (ci_vals _ _ _ _ C2 _ _ Hw) as (v & B1 & B2 & B3 & B4 & B5 & B6 & B7).
-    split; [apply B6|]. split; [eapply val_wf_eq; [exact Harr|exact B6]|exact B3]. }
+  assert (Hval : forall a w, aget m2 a = Some w -> v_addr w = a /\ val_wf h' a (set_deleted w false)).
+  { intros a w Hw. destruct (ci_vals _ _ _ _ C2 _ _ Hw) as (v & B1 & B2 & B3 & B5 & B6 & B7).
+    split; [destruct B6 as (Ha & _); destruct w; exact Ha|]. eapply val_wf_eq; [exact Harr|exact B6]. }
   split; [split|].
   - constructor; cbn [vjournal vmap vdirty t_vals arrs h'].
     + cbn. lia.
-    + intros a w Hw. destruct (Hval _ _ Hw) as (A1 & A2 & A3). auto.
-    + intros u Hu. destruct (Hreach _ Hu) as (a & Ha). destruct (Hval _ _ Ha) as (_ & A2 & _). apply A2.
+    + intros a w Hw. destruct (Hval _ _ Hw) as (A1 & A2). split; [exact A1|]. split.
+      * intros Hd. rewrite <- (set_deleted_false_live w Hd). exact A2.
+      * intros _. exact A2.
+    + intros u Hu. destruct (Hreach _ Hu) as (a & Ha). destruct (Hval _ _ Ha) as (_ & (_ & _ & A3 & _)). destruct u; exact A3.
     + intros u1 u2 H1 H2 Hne. destruct (Hreach _ H1) as (a1 & Ha1), (Hreach _ H2) as (a2 & Ha2).
       destruct (Hval _ _ Ha1) as (A1 & _), (Hval _ _ Ha2) as (A2 & _).
       apply (ci_sep _ _ _ _ C2 a1 a2); [congruence|assumption|assumption].
     + apply (w_tvals _ _ W).
-    + intros a w Hw Hd. destruct (Hval _ _ Hw) as (_ & _ & A3). congruence.
     + intros a w Hw Hd N1 N2. exfalso. apply N1. apply (ci_dirt _ _ _ _ C2). congruence.
-    + intros e [].
+    + intros a w Hw Hd N1 N2. exfalso. apply N1. apply (ci_dirt _ _ _ _ C2). congruence.
+    + intros a e H; discriminate.
     + exact I.
-    + intros a Ha. apply (ci_dirt _ _ _ _ C2) in Ha. destruct (aget m2 a) as [w|] eqn:Ew; [|congruence].
-      exists w. split; [reflexivity|]. apply (Hval _ _ Ew).
+    + intros a Ha. apply (ci_dirt _ _ _ _ C2) in Ha. exact Ha.
     + apply C2.
     + apply C2.
     + apply (w_tnodup _ _ W).
@@ -2765,14 +3078,14 @@ Proof.
   - unfold a_setnext, a_finalise. constructor; cbn [core xdirty xvj xaj xrevs xnext].
     + intros a. rewrite (r_xs _ _ _ Rx). unfold xpeek at 2. cbn [vmap t_vals h'].
       destruct (aget m2 a) as [w|] eqn:Ew.
-      * destruct (ci_vals _ _ _ _ C2 _ _ Ew) as (v & B1 & B2 & B3 & B4 & B5 & B6 & B7).
-        rewrite B3, (xpeek_live _ _ _ B1 B2). unfold absv. rewrite B4.
+      * destruct (ci_vals _ _ _ _ C2 _ _ Ew) as (v & B1 & B2 & B3 & B5 & B6 & B7).
+        unfold xpeek. rewrite B1, B2. destruct (v_deleted v); [reflexivity|]. unfold absv. rewrite B3.
         replace (view h' w) with (view s2 w) by (unfold view, arr_of; reflexivity). now rewrite B5.
       * assert (Hnd : ~ (In a (map ventry_addr (vjournal h)) \/ In a (vdirty h))).
         { intros Hc. apply Hkeys in Hc. congruence. }
         unfold xpeek. destruct (aget (vmap h) a) as [v|] eqn:Ev; [|reflexivity].
         destruct (v_deleted v) eqn:Ed.
-        -- now rewrite (w_tomb _ _ W _ _ Ev Ed).
+        -- rewrite (w_tomb _ _ W _ _ Ev Ed); [reflexivity|tauto|tauto].
         -- destruct (w_coh _ _ W a v Ev Ed) as (p & P1 & P2 & P3); [tauto|tauto|].
            rewrite P1. destruct (w_tvals _ _ W _ _ P1) as [_ Hn]. rewrite Hn. unfold absv. rewrite P3, P2. reflexivity.
     + apply Rx.
